@@ -12,2382 +12,869 @@ Definition show_fres (r : fres) : string :=
   end.
 Definition check (rs : list rune) : string := digest (show_fres (format_res rs)).
 Definition full (rs : list rune) : string := show_fres (format_res rs).
-Eval vm_compute in ("<<<M3661>>>" ++ check (runes_of_ascii "options {
-    ArrayPrefixLenType = u16;
-    FixedStringPadFromLeft = true;
-    JavaPackage = ""co\
-m.example.msg"";
-    GoPackage = ""ms\
-g"";
-    GoModule = ""example.com/msg"";
-}
-MetaData Meta {
-    u32 SeqNum `sequence number`,
-    char[8] Symbol `symbol`,
-    zchar[5] ZSym `z symbol`,
-    string Note,
-    Symbol AltSymbol `alias of symbol`,
-    f64 Price,
-}
-packet Inner {
-    u8 a,
-    i16 b,
-    string c,
-}
-packet Inner2 {
-    u8 a2,
-    char[3] c2,
-}
-packet Logon {
-    u8 x,
-    string user,
-    repeat u16 codes,
-}
-packet Logout {
-    u16 reason,
-}
-packet Empty {
-}
-root packet Msg {
-    u8 su8,
-    uint8 luint8,
-    u16 su16,
-    uint16 luint16,
-    u32 su32,
-    uint32 luint32,
-    u64 su64,
-    uint64 luint64,
-    i8 si8,
-    int8 lint8,
-    i16 si16,
-    int16 lint16,
-    i32 si32,
-    int32 lint32,
-    i64 si64,
-    int64 lint64,
-    f32 sf32,
-    float32 lfloat32,
-    f64 sf64,
-    float64 lfloat64,
-    char[6] fsplain,
-    @leftPad('0') char[4] fs0,
-    @rightPad('0') char[5] fs1,
-    @leftPad(' ') char[6] fs2,
-    @rightPad(' ') char[7] fs3,
-    @leftPad('\x00') char[8] fs4,
-    @rightPad('\x00') char[9] fs5,
-    @leftPad() char[10] fs6,
-    @rightPad() char[11] fs7,
-    zchar[7] fz,
-    @leftPad('0') zchar[3] fzl0,
-    string s1 `doc`,
-    char[] s2,
-    Inner,
-    Sub {
-        u8 q,
-        string w,
-        Deep {
-            u16 z,
-            repeat i32 zs,
+Eval vm_compute in ("<<<M2070>>>" ++ check (runes_of_ascii "packet tag {
+    repeat T MetaDataX,
+    @calculatedFrom(""`tick`"")
+    @tag(007)
+    leftPad `tab	here`,
+    @tag(0123456789)
+    char x,
+    @tag(0)
+    u64 tag,
+    i8 roots,
+    @lengthOf(float)
+    @tag(10)
+    // c
+    // `tick` ""quote"" 'q'
+    body {
+        chars {
+            repeat int8 body,
         },
+        repeat Header {
+            char[] leftPad,
+        },
+        match Logon as zchar {
+            4294967296 : len,
+            ""a\""b"" : A,
+            //
+            00 : x_y_z,
+        },
+        repeat i16 options1,
     },
-    repeat u8 ru8,
-    repeat u16 ru16,
-    repeat u32 ru32,
-    repeat u64 ru64,
-    repeat i8 ri8,
-    repeat i16 ri16,
-    repeat i32 ri32,
-    repeat i64 ri64,
-    repeat f32 rf32,
-    repeat f64 rf64,
-    repeat string rstr,
-    repeat char[] rstr2,
-    repeat char[3] rfs,
-    repeat zchar[3] rfz,
-    repeat Inner2,
-    repeat Grp {
-        u8 k,
-        char[2] v,
+    @calculatedFrom(""" ++ [128512]%N ++ runes_of_ascii """)
+    @rightPad('0')
+    i16 Pad,//
+    int64 As @lengthOf(crc),
+}
+
+MetaData x_y_z {
+    u crc,
+}
+
+root packet Z9_ {
+    @calculatedFrom(""{,}"")
+    tag,
+    @lengthOf(lengthOf)
+    zchar[42] crc `" ++ [233]%N ++ runes_of_ascii "`,
+    char[007] options1,
+}
+
+packet x {
+    char trueish,
+    char[] packetx @calculatedFrom(""" ++ [28040; 24687]%N ++ runes_of_ascii """) `line1
+    line2`,
+    zchar[1] Foo,
+    zchar[00] A,
+    match msg_type as tag {
+        """" : leftPad,
+        [""" ++ [128512]%N ++ runes_of_ascii """, 0, 10, 3] : Z9_,
+        ""it's"" : float,
+        10 : calculatedFrom,
+        ""x y"" : f32a,
+        007 : roots,
     },
-    SeqNum,
-    SeqNum seq2,
-    repeat SeqNum seqs,
-    Symbol,
-    AltSymbol alt,
-    ZSym,
-    Note,
-    repeat Symbol syms,
-    Price px,
-    u16 MsgType,
-    u32 BodyLen @lengthOf(Body),
+}
+
+packet u {
+    // trailing space 
+    @calculatedFrom(""\n"")
+    @calculatedFrom(""a\""b"")
+    i64_ rootA,
+    match x as Logon {
+        1 : body,
+        ""a\\"" : _x,
+        ""packet"" : BodyLength,
+    },
+    //x
+    @rightPad('\x00')
+    @calculatedFrom(""" ++ [128512]%N ++ runes_of_ascii """)
+    repeat stringy {
+        match T as float {
+            ""a\\"" : len,
+            0 : BodyLength,
+            [""it's"", ""{,}"", 255, 0123456789, ""a\\""] : Logon,
+            3 : rootA,
+        },
+    },//
+    u16 uint8x `{ , }`,
+    // trailing space 
+    //x
+    @leftPad('0')
+    string i64_ @lengthOf(stringy),
+    // `tick` ""quote"" 'q'
+    // @lengthOf(
+    u64 leftPad @calculatedFrom(""a	b""),
+    repeat Header MetaDataX `a\`,
+    @lengthOf(stringy)
+    Packet leftPad,
+    @tag(00)
+    repeat zchar _x `tab	here`,
+    i32 matchKey,
+}")).
+Eval vm_compute in ("<<<M377>>>" ++ check (runes_of_ascii "options {
+	StringPrefixLenType = u16;
+	ArrayPrefixLenType = u16;
+}
+
+packet SampleBinary {
+    uint16 MsgType `" ++ [28040; 24687; 31867; 22411]%N ++ runes_of_ascii "`,
+    u16 BodyLenght @lengthOf(Body) `" ++ [28040; 24687; 20307; 38271; 24230]%N ++ runes_of_ascii "`,
     match MsgType as Body {
         1 : Logon,
-        [2, 3] : Logout,
-        7 : Logon,
-        9 : Empty,
+        2 : Logout,
+        3 : Heartbeat,
+        4 : RiskControlRequest,
+        5 : RiskControlResponse,
     },
-    u32 Checksum @calculatedFrom(""CRC32""),
+        @calculatedFrom(""CRC32"")
+    u32 Ckecksum `" ++ [26657; 39564; 21644]%N ++ runes_of_ascii "`,
 }
-")).
-Eval vm_compute in ("<<<M697>>>" ++ check (runes_of_ascii "MetaData	leftPad { Header
-    falsey ,} packet x_y_z	{  @calculatedFrom( ""`tick`"" )
-@rightPad // `tick` ""quote"" 'q'
-( '\x00'
-) match matchKey
-    as
-As {
-[	""CRC32"" , ""\n""]/// triple
-:	Logon ,
-[ 007, """ ++ [28040; 24687]%N ++ runes_of_ascii """,
-""" ++ [28040; 24687]%N ++ runes_of_ascii """ , """ ++ [128512]%N ++ runes_of_ascii """ ,
-0123456789 ]://	t
-x [1 ] : /// triple
-i8i8
-, ""`tick`"": u8x
-    , } ,
-int64
-    _x `tab	here`
-    // trailing space 
-    ,
-    @rightPad( ) char[ 255 ] uint8x `a\`  , string string_ //x
-,
-    repeat int16 packetx
-,// " ++ [27880; 37322]%N ++ runes_of_ascii "
-@rightPad
-(' ' ) string
-    string_ ,
-i16 asx @lengthOf(
-// " ++ [128512]%N ++ runes_of_ascii " emoji
-// trailing space 
-int )`// not a comment`
-,
-float32
-uint8x , i8 i64_ @calculatedFrom( ""\n"")
-    // packet A { u8 x, }
-    ,
+
+packet Logon {
+     @leftPad('0')
+    char[10] UserName `" ++ [29992; 25143; 21517]%N ++ runes_of_ascii "`,
+    string Password `" ++ [23494; 30721]%N ++ runes_of_ascii "`,
+    uint64 ClientId `" ++ [23458; 25143; 31471]%N ++ runes_of_ascii "ID`,
+    u16 HeartbeatInterval `" ++ [24515; 36339; 38388; 38548]%N ++ runes_of_ascii "`,
 }
-packet	T { string_
-// a // b
-// @lengthOf(
-@lengthOf(
-    A  ) `{ , }` , @calculatedFrom( """" ) match	Pad	as u {
-[ ""1"" // " ++ [128512]%N ++ runes_of_ascii " emoji
-, ""1"" ] : body,
-    [ 0123456789
-, ""a\\"",
-/// triple
-// trailing space 
-""" ++ [128512]%N ++ runes_of_ascii """ , ""it's""
-,
-""it's""	]:
-    lengthOf , """ ++ [128512]%N ++ runes_of_ascii """ :	A , [ 0123456789
-// c
-/// triple
-, 3] : rootA , 4294967296
-: rootA } , string metadata
-@lengthOf(
-    A  )
-    // packet A { u8 x, }
-    ,
-@lengthOf( msg_type
-) @rightPad( ' ' )  @rightPad (
-    )f64	u128
-@lengthOf(  rootA
-/// triple
-// @lengthOf(
-) `{ , }` ,} packet  int  {@tag(
-255
-    // a // b
-    ) @rightPad (
-    ' ') repeat
-char[10 ] u128, @calculatedFrom(
-""\" ++ [233]%N ++ runes_of_ascii """
-    ) char[ 007
-] calculatedFrom
-    , @rightPad('\x00' ) repeat zchar[ 007	] i8i8,
-@calculatedFrom(
-    ""// no comment"" ) char[] x_y_z , zchar[
-    // trailing space 
-    0123456789 ] msg_type @calculatedFrom( ""a\""b"" ) ,u8 f32a  @lengthOf( rootA ) `crlf
-line`	, zchar[	7 // " ++ [128512]%N ++ runes_of_ascii " emoji
-]
-msg_type	@lengthOf(
-    Header
-)`// not a comment` ,
-char[ 42 ]roots
-`" ++ [233]%N ++ runes_of_ascii "` //
-, @lengthOf(  stringy  )	@lengthOf( As )
-// trailing space 
-// " ++ [128512]%N ++ runes_of_ascii " emoji
-zchar[7
-    ] msg_type // " ++ [128512]%N ++ runes_of_ascii " emoji
-`{ , }`	,	}
-    root
-packet u{ // c
-repeat uint64 As, } 	 ")).
-Eval vm_compute in ("<<<M322>>>" ++ check (runes_of_ascii "
-packet
-metadata {
-i8 BodyLength,
-asx `two words`  ,char[ 0123456789] asx`" ++ [28040; 24687; 31867; 22411]%N ++ runes_of_ascii "`// " ++ [128512]%N ++ runes_of_ascii " emoji
-, @tag(
-42/// triple
-)
-    repeat	charz `crlf
-line` ,
-body ,@tag( 65535  ) match
-    // " ++ [128512]%N ++ runes_of_ascii " emoji
-    Pad as x_y_z  { ""{,}"" :
-u , } ,
-    repeat Foo
-    {repeat pack {
-// `tick` ""quote"" 'q'
-// `tick` ""quote"" 'q'
-f32 calculatedFrom
-    @lengthOf( options1
-    )
-,
-//x
-// c
-}
-, int32 Header @calculatedFrom(""a	b"")
-, char[]
-zchar
-    `
-`
-    ,
-    zchar[00 ]a1 @calculatedFrom(
-    // c
-    ""{,}"") `crlf
-line` , }
-,
-    body zchar ,i64_ @calculatedFrom( ""a\\""  )
-, // " ++ [27880; 37322]%N ++ runes_of_ascii "
-match
-/// triple
-// " ++ [27880; 37322]%N ++ runes_of_ascii "
-zchar
-as zchar {	1 : u128
-    ,
-255
-: packetx, [""{,}"" ,""// no comment"",  0 , 65535 ,  3 ] :  u8x, 0123456789:  calculatedFrom // `tick` ""quote"" 'q'
-, 10 : Header	,
-}
-    ,
-}packet string_
-{ @tag( 10 ) T, @calculatedFrom(""CRC32""//	t
-)@lengthOf(charz )@lengthOf(
-zchar) zchar[
-42
-    ] // a // b
-a1 `" ++ [233]%N ++ runes_of_ascii "` , int32 x `two words` //
-, float32 repeatCount ,
-    //
-    @lengthOf(
-    Packet) @rightPad('0'	) // @lengthOf(
-@calculatedFrom(""a\""b"") zchar[ 0 ]	repeatCount @lengthOf(
-BodyLength  ) // trailing space 
-, float,
-repeat
-zchar
-// trailing space 
-//x
-,} root packet body
-{  @lengthOf(msg_type) repeat
-    u128 {// trailing space 
-char[
-// " ++ [128512]%N ++ runes_of_ascii " emoji
-//
-0123456789 ]options1
-,
-}	, //	t
-f64
-    u128`it's`	,// @lengthOf(
-repeat  i64 charz ,
-@calculatedFrom( """ ++ [128512]%N ++ runes_of_ascii """ )
-    repeat char
-    roots, } packet
-metadata // @lengthOf(
-{ // trailing space 
-@lengthOf( // packet A { u8 x, }
-BodyLength ) @tag( 4294967296  ) f32a
-A
-, } MetaData u128 { } //")).
-Eval vm_compute in ("<<<M360>>>" ++ check (runes_of_ascii "root packet falsey { @lengthOf(Pad	)repeatCount
-    @calculatedFrom( ""1"")
-    ,@calculatedFrom( """"
-)
-@lengthOf(
-stringy ) A
-leftPad , @calculatedFrom(""{,}""
-    ) // " ++ [128512]%N ++ runes_of_ascii " emoji
-f32 calculatedFrom `{ , }` , char[007
-    ] a1,
-repeat char[ 007 ] repeatCount`it's`
-, char[] pack `line1
-line2`, } packet // " ++ [128512]%N ++ runes_of_ascii " emoji
-trueish{ repeat zchar[10 ]options1 `a\`
-,  roots@calculatedFrom(
-""" ++ [128512]%N ++ runes_of_ascii """	) `{ , }`
-,  @calculatedFrom(	""a\""b""	)
-_x _x `
-` , //x
-i8 pack
-    , @lengthOf(  string_ )
-match charz
-as
-repeatCount
-{[
-0123456789 ]
-    : x// a // b
-,255:
-    Foo, [ 0123456789 , ""1"" ] : f32a """" :
-    // " ++ [128512]%N ++ runes_of_ascii " emoji
-    len
-,	[0 ,
-0123456789 ,""a\\"" ,65535]
-    : int ,[""packet"" , ""1"" ,65535 ,  ""a\""b""
-    ,	4294967296
-, ""x y""
-    , ""// no comment"" ]
-: calculatedFrom , // trailing space 
-},
-@calculatedFrom( // " ++ [27880; 37322]%N ++ runes_of_ascii "
-""" ++ [28040; 24687]%N ++ runes_of_ascii """
-)Pad int  `tab	here`,
-} packet // c
-As
-{
-    options1
-,  @lengthOf( int // a // b
-)int8
-options1 @lengthOf( u8x)
-`crlf
-line`, } packet falsey { @rightPad ( ) char[ 3] o
-    , }root
-packet
-    // @lengthOf(
-    _x {@tag( 42
-) trueish
-    @calculatedFrom(
-""" ++ [128512]%N ++ runes_of_ascii """ )
-`
-` , f32a `crlf
-line` , match
-rootA as stringy  { // trailing space 
-[ ""packet""
-    ,
-//
-// " ++ [27880; 37322]%N ++ runes_of_ascii "
-"""" ]:
-    uint8x ,  ""\" ++ [233]%N ++ runes_of_ascii """
-: uint8x , [""\n"" ,1 ]
-    : zchar // packet A { u8 x, }
-, 255:
-// `tick` ""quote"" 'q'
-//
-int ,[ ""packet""]: roots }
-, repeat u16 // c
-x_y_z// a // b
-`// not a comment` , }")).
-Eval vm_compute in ("<<<M4100>>>" ++ check (runes_of_ascii "
-root packet roots	{
-	repeat
-rootA
-	`{ , }` ,
 
-BodyLength , @lengthOf( 
-int)  u64  pack
-
-`// not a comment`
-
-,  chars@lengthOf(
-    crc)  // packet A { u8 x, }
-    , 
-	// @lengthOf(
-  // `tick` ""quote"" 'q'
-	  tag
-
-    `u8 x,`
-
-    ,match x_y_z  as  chars 
-{	// " ++ [128512]%N ++ runes_of_ascii " emoji
-
-[
-    65535
-,
-    ""x y""	// a // b
-  	, 10
-	,
-	4294967296 ]
-:	//x
-  repeatCount ,[	255 ] // @lengthOf(
-: i8i8 
-, 4294967296 :
-metadata 
-,
-[	10 ,
-""""
-	,255
-
-,
-
-0 , ""abc"" ,	10]
-: 
-rootA
-// @lengthOf(
-
-	,
-[ ""1""  ,""1""
-	]
-
-: 
-uint8x ,
-	[""""  , 
-10 
-	// trailing space 
-
-  ]
-: 
-options1,	},
-}
-packet trueish { uint16 i64_
-,
-
-    }
-packet	zchar	{Logon
-{
-	// " ++ [27880; 37322]%N ++ runes_of_ascii "
-
-	// @lengthOf(
-	match	pack as 
-asx 
-{
-	[
-
-    1,  // `tick` ""quote"" 'q'
-10]
-
-: Logon ,[
-
-    7] :
-
-pack, [42 
-,	""// no comment"" ,7 , 00 ,
-
-65535  ]:	x , //
-	  ""1"":	uint8x ,  """"  :  A  65535
-	:
-    u8x
-    }
-
-    ,
-
-    } ,
-x 
-`u8 x,`, @tag(	65535)
-
-string
-    stringy`say ""hi""`
-	,
-	repeat uint16 leftPad `
-`
-    ,
-
-match
-options1	as
-    Foo { ""abc"" :
-falsey
-    ,
-3 : T , }
-
-    , zchar[ 
-4294967296
-]charz
-@lengthOf( As
-
-    ),
-i64
-    Packet ,
-	@lengthOf( MetaDataX ) @lengthOf(metadata )@calculatedFrom(
-""" ++ [128512]%N ++ runes_of_ascii """ )  uint8
-
-T@calculatedFrom(""" ++ [128512]%N ++ runes_of_ascii """
-)`" ++ [233]%N ++ runes_of_ascii "` ,
-	} // `tick` ""quote"" 'q'")).
-Eval vm_compute in ("<<<M4181>>>" ++ check (runes_of_ascii "options
-{
-Packet 
-=  ""packet""
-    len=
-
-    ""packet"" ;charz
-
-= 
-true 
-}	packet
-	calculatedFrom// c
-	{
-//	t
-    	// a // b
-
-	repeat// " ++ [27880; 37322]%N ++ runes_of_ascii "
-
-	Packet
-,
-    uint8x @calculatedFrom(
-// @lengthOf(
-
-	// `tick` ""quote"" 'q'
-    	""\n"" )
-    ,@calculatedFrom(""// no comment"" )
-    @rightPad	/// triple
-  (' '
-    )match
-    x 
-	//x
-  //	t
-    as
-
-Packet	{ 
-00
-: Pad	[
-	0]  :  // @lengthOf(
-
-  As,
-
-    } 
-,
-
-@lengthOf( chars )a1  `it's`
-
-    , match Logon
-
-as  int
-	{
-""packet""
-:	int
-
-[  """ ++ [28040; 24687]%N ++ runes_of_ascii """
-
-,
-
-0123456789	// trailing space 
-
-,
-
-""x y""
-, 65535
-    //	t
-	]	:
-
-    lengthOf
-	,
-10 : asx , 
-[
-
-""// no comment""	] :
-	zchar 
-, ""// no comment""
-
-    :a1  
-      //
-    // `tick` ""quote"" 'q'
-    , 
-0
-
-: len	,} 	 // " ++ [27880; 37322]%N ++ runes_of_ascii "
-    , 
-match
-u8x as MetaDataX{
-
-    [ 255
-]: string_ // packet A { u8 x, }
-,
-	[
-""// no comment"" ,
-""CRC32"" 
-] :metadata
-
-    ,// packet A { u8 x, }
-		""a\""b""
-	:
-// " ++ [27880; 37322]%N ++ runes_of_ascii "
-  leftPad
-}
-,
-
-Header	`tab	here`
-
-    ,  }  packet u128	{ 
-char[
-    10 	 //x
-
-] trueish `tab	here` ,
-repeat asx{ match len
-    as
-	chars	{
-1
-
-    :
-MetaDataX
-,
-42
-	:roots ,
-	10
-    :BodyLength,	""// no comment""	:
-o
-, ""a\\""
-	:  i64_ ,
-}
-,  }	, 
-}
-")).
-Eval vm_compute in ("<<<M3914>>>" ++ check (runes_of_ascii "
-
-  root packet
-
-body
-	{
-
-@tag(	4294967296  )
-As 
-@calculatedFrom(
-    """ ++ [128512]%N ++ runes_of_ascii """) 
-`a\` 
-,	/// triple
-      } root
-
-packet  uint8x {	MetaDataX  {repeat
-    matchKey
-lengthOf , repeat
-u32
-uint8x 
-      // packet A { u8 x, }
-    // a // b
-	`doc` 
-
-    /// triple
-
-  ,
-	}
-, }
-	options{	int// a // b
-
-  =	""abc""	} 
-packet
-// trailing space 
-    u8x
-	{  }root  packet	// " ++ [128512]%N ++ runes_of_ascii " emoji
-	falsey
-
-    {
-repeat float32
-u
-
-,  repeat char[] 
-	// " ++ [128512]%N ++ runes_of_ascii " emoji
-  // packet A { u8 x, }
-msg_type
-
-    `
-` ,  @leftPad
-
-(' ' 
-)@tag(
-255
-)
-match  Header 
-as
-	msg_type
-
-    {	3 :
-
-    uint8x
-	,
-
-    255: x
-,	// trailing space 
-	7 	 // " ++ [27880; 37322]%N ++ runes_of_ascii "
-
-: leftPad  
-  // c
-	// `tick` ""quote"" 'q'
-""" ++ [28040; 24687]%N ++ runes_of_ascii """ 
-
-// packet A { u8 x, }
-	// c
-    :	Packet	,
-[  4294967296
-
-,
-""1""
-
-] : T
-
-,  } , 
-	//	t
-	Logon
-
-@calculatedFrom(  ""x y"" 
-) `it's`  ,	string  charz @calculatedFrom(  
-      // " ++ [128512]%N ++ runes_of_ascii " emoji
-	//	t
-    ""abc""	)
-, string options1 , 
-    /// triple
-    	/// triple
-	@lengthOf( 
-  //
-	  //x
-    As )
-
-repeat 
-zchar[	// `tick` ""quote"" 'q'
-7
-]	zchar
-,@lengthOf(	crc
-    )
-    x_y_z
-	@calculatedFrom(  """ ++ [28040; 24687]%N ++ runes_of_ascii """ )
-,  } ")).
-Eval vm_compute in ("<<<M3616>>>" ++ check (runes_of_ascii "options {
-    LittleEndian = true;
-    StringPrefixLenType = u16;
-    ArrayPrefixLenType = u8;
-    FixedStringPadChar = '0';
-}
 packet Logout {
-    repeat i16 f1,
-    string Ref,
-    @rightPad('\x00') char[9] Tail,
-    repeat char[6] Flags,
-    repeat char[3] Acct,
+      @rightPad('0')
+    char[10] UserName `" ++ [29992; 25143; 21517]%N ++ runes_of_ascii "`,
+    uint64 ClientId `" ++ [23458; 25143; 31471]%N ++ runes_of_ascii "ID`,
 }
-packet Party {
-    char[2] f1,
-    u8 Side2,
-    @leftPad(' ') char[1] venue,
-}
-packet Order {
-    repeat i64 Ref,
-    InPx62 {
-        i32 OrderId,
-    },
-    InNote53 {
-        InClordid80 {
-            char[] Acct,
-            u32 Px,
-            repeat Party,
-        },
-        InPrice12 {
-            u8 pad0,
-        },
-        repeat Logout,
-        InFlags23 {
-            repeat string seqNo,
-            string sym,
-            int8 Flags,
-            zchar[5] lastPx,
-            zchar[6] Px,
-        },
-        char[10] Acct,
-        InPx18 {
-            zchar[2] count,
-            Party,
-        },
-    },
-    char[5] Side2,
-    char[1] Acct,
-}
-root packet Ack {
-    u32 Tail,
-    repeat char[4] msgKind,
-    repeat Logout,
-}
-")).
-Eval vm_compute in ("<<<M4523>>>" ++ check (runes_of_ascii "
 
-  options
-	{StringPrefixLenType	=  u64
-	;ArrayPrefixLenType	=
-	u16
+packet Heartbeat {
+}
 
-; FixedStringPadChar=  ' ' ; }
+packet RiskControlRequest {
+    string UniqueOrderId `" ++ [21807; 19968; 35746; 21333; 21495]%N ++ runes_of_ascii "`,
+    char[16] ClOrdID `" ++ [23458; 25143; 35746; 21333; 21495]%N ++ runes_of_ascii "`,
+    char[3] MarketID `" ++ [24066; 22330]%N ++ runes_of_ascii "id`,
+    char[12] SecurityID `" ++ [35777; 21048; 20195; 30721]%N ++ runes_of_ascii "`,
+    char Side `" ++ [20080; 21334; 26041; 21521]%N ++ runes_of_ascii "`,
+    char OrderType `" ++ [35746; 21333; 31867; 22411]%N ++ runes_of_ascii "`,
+    u64 Price `" ++ [20215; 26684]%N ++ runes_of_ascii "`,
+    u32 Qty `" ++ [25968; 37327]%N ++ runes_of_ascii "`,
+    repeat string ExtraInfo `" ++ [38468; 21152; 20449; 24687]%N ++ runes_of_ascii "`,
+    repeat SubOrder {
+    		char[16] ClOrdID `" ++ [23376; 35746; 21333; 21495]%N ++ runes_of_ascii "`,
+    		u64 Price `" ++ [23376; 35746; 21333; 20215; 26684]%N ++ runes_of_ascii "`,
+    		u32 Qty `" ++ [23376; 35746; 21333; 25968; 37327]%N ++ runes_of_ascii "`,
+    	},
+}
+
+packet RiskControlResponse {
+    string UniqueOrderId `" ++ [21807; 19968; 35746; 21333; 21495]%N ++ runes_of_ascii "`,
+    i32 Status `" ++ [29366; 24577]%N ++ runes_of_ascii "`,
+    string Msg `" ++ [32467; 26524; 20449; 24687]%N ++ runes_of_ascii "`,
+    repeat Detail,
+}
+
+packet Detail {
+    string RuleName `" ++ [35268; 21017; 21517; 31216]%N ++ runes_of_ascii "`,
+    u16 Code `" ++ [21407; 22240; 20195; 30721]%N ++ runes_of_ascii "`,
+}")).
+Eval vm_compute in ("<<<M2129>>>" ++ check (runes_of_ascii "//x
 packet
-	Logon {	i32
+	u8x
+{@lengthOf(
+As
+)  repeat
+char[  // c
+	4294967296
 
-msgKind, 
-repeat
-    InOrderid65 {
-
-    u8
-pad0
-
-,}
-    ,  i8
-tag7
-,
-    @leftPad  (
-
-' ' )char[ 12
-
-    ] 
-x,} 
-packet Leg 
-{char[] f1 ,repeat
-
-    char[	5  ]
-
-Px,InQty34
-{ repeat
-
-    char[6
-	]Qty ,
-char[ 7
-]	seqNo	,
-string 
-count ,
-
-}  ,Logon
-,  }	packet
-
-    Party
-{ 
-@leftPad
-	(	'0'
-
-) char[
-
-    10
-	]  OrderId 
-, 
-string
-    Tail
-,
-}packet
-Fill  {
-zchar[5 ] 
-venue
-
-, zchar[ 3 ]  clOrdID  ,
-InRef95
-{InLastpx25{
-u8 pad0,
-
-    } ,float64 OrderId ,
-
-    i32
-f1
-
-    ,
-    float32
-
-x  ,
-char[] seqNo ,}
-
-,repeat string
-seqNo
-	,
-
-    } root 
-packet Heartbeat
-	{  repeat
-    Leg, u32 seqNo , u16
-tag7 ,
-u32 Flags @lengthOf(
-
-    Body
-
-    )
-
-,match
-
-tag7 
-as Body
-    {
-[	195
-	,	75
-
-    ]  : Party
-
-, 171:Fill
-	,78 :
-    Logon,  142 :	Leg ,
-
-}
-, 
-u32
-	Note @calculatedFrom( ""CRC32"" 
-),
-
-}
-")).
-Eval vm_compute in ("<<<M394>>>" ++ check (runes_of_ascii "
-MetaData As	{ zchar[ 007	]
-BodyLength `u8 x,` , char[]
-    o
-,
-T stringy ,	f32a
-    As
-, }root packet	Logon{int32
-charz @calculatedFrom(	""`tick`"" ) `crlf
-line`,
-match uint8x as options1 {
-10
-: Logon 4294967296
-// `tick` ""quote"" 'q'
-// `tick` ""quote"" 'q'
-: pack, 10
-    // c
-    :
-    BodyLength  ,
-0 : options1 , 0:calculatedFrom
-, [
-""it's""
-,
-0, ""a\""b"" //
-, ""a	b""	, 0123456789 ,
-00 , 3 ,
-007 // " ++ [27880; 37322]%N ++ runes_of_ascii "
-]
-    :packetx	}, @leftPad// packet A { u8 x, }
-(	'\x00'
-    ) @tag(
-4294967296 )
-    repeat uint8 Packet
-`it's` ,// packet A { u8 x, }
-zchar[
-    0123456789 ] len
-    // " ++ [27880; 37322]%N ++ runes_of_ascii "
-    @lengthOf( A  )
-, zchar[// " ++ [128512]%N ++ runes_of_ascii " emoji
-0
-    ]u @calculatedFrom(
-""x y"" ) , @tag( 00 )	match zchar as
-o { 4294967296: uint8x
-[ ""CRC32""
-    , ""// no comment""
-// a // b
-// @lengthOf(
-, 4294967296 , 0123456789
-    ] :
-BodyLength ,}, @leftPad( '0' ) @lengthOf( BodyLength  )
-@tag(0 ) calculatedFrom`line1
-line2`
-,}")).
-Eval vm_compute in ("<<<M3685>>>" ++ check (runes_of_ascii "// a // b
-MetaData x {
-    i8 MetaDataX `" ++ [233]%N ++ runes_of_ascii "`,
-    string matchKey,// packet A { u8 x, }
-    BodyLength f32a,
-    char[7] u8x,
-    char[] len,
-    int16 msg_type,
+    ] int`{ , }`,repeat 
+	// " ++ [128512]%N ++ runes_of_ascii " emoji
+    	int8
+	len  `two words`
+, } root packet
+	tag	// a // b
+	{
 }
 
-packet o {
-    match roots as T {
-        [
-            255, 1, 1, """ ++ [28040; 24687]%N ++ runes_of_ascii """, ""`tick`"",
-            ""a\""b"", 42
-        ] : pack,
-        [0, ""// no comment""] : Logon,
-        [
-            ""1"", ""abc"", 255, 3, ""\n"",
-            255, """ ++ [128512]%N ++ runes_of_ascii """, ""{,}""
-        ] : x_y_z,
-    },
-    char[] len @lengthOf(Pad),
-    char[] BodyLength,
-    trueish @calculatedFrom(""1"") `" ++ [233]%N ++ runes_of_ascii "`,
-    match chars as x_y_z {
-        ""`tick`"" : calculatedFrom,
-    },
-    @lengthOf(string_)
-    char[3] f32a,
-    falsey `" ++ [28040; 24687; 31867; 22411]%N ++ runes_of_ascii "`,
-    repeat int64 u128 `tab	here`,
-    uint8 msg_type @calculatedFrom(""a\\"") `line1
-    line2`,
-}
+root
+    packet 
+rootA{o @calculatedFrom( """" )
 
-options {
-    body = zchar[4294967296];
-    u128 = '\x00'
-    BodyLength = float32
-}
-// @lengthOf(")).
-Eval vm_compute in ("<<<M746>>>" ++ check (runes_of_ascii "packet o
-    {
-    /// triple
-    }
-packet Pad // a // b
-{ repeat  f32
-metadata	`two words`,repeat
-    charz	{  i32 i64_@calculatedFrom(""\" ++ [233]%N ++ runes_of_ascii """ ) `u8 x,` ,
-repeat uint8x
-tag , uint16// " ++ [128512]%N ++ runes_of_ascii " emoji
-Packet	@calculatedFrom( ""a	b"" ) `u8 x,` ,
-    } ,
-}  packet
-metadata {@leftPad	( )
-repeat  f32 i64_  ,
-    // `tick` ""quote"" 'q'
-    f32a @calculatedFrom( ""x y""
-) , repeat zchar[007 ]  body // a // b
-,@rightPad ( '\x00' )	string MetaDataX  @lengthOf( options1)
-,  @tag( 3 )
-    match  _x as
-    lengthOf {  ""`tick`"": //	t
-body}
-/// triple
-// c
-,@calculatedFrom(""`tick`""
-)i64 options1@calculatedFrom( ""abc"") `" ++ [28040; 24687; 31867; 22411]%N ++ runes_of_ascii "` , i8 As // a // b
-, rootA
-@lengthOf( lengthOf) //x
-,
-// " ++ [27880; 37322]%N ++ runes_of_ascii "
-// " ++ [27880; 37322]%N ++ runes_of_ascii "
-}  MetaData body { int16 // " ++ [128512]%N ++ runes_of_ascii " emoji
-len `line1
-line2`
-,  uint16 stringy , uint64 falsey
-`{ , }`, len len ,
-} // " ++ [128512]%N ++ runes_of_ascii " emoji")).
-Eval vm_compute in ("<<<M3638>>>" ++ check (runes_of_ascii "
-
-  options
-{
-
-    LittleEndian= false ;StringPrefixLenType= u8
-; 
-ArrayPrefixLenType =	u8
-    ;
-
-    FixedStringPadFromLeft= true
-
-;
-    FixedStringPadChar
-
-    =  ' '
-
-;
-
-    }
-packet Trade	{
-
-zchar[2	] 
-Side2,	i8
-
-    seqNo	,
-
-    }
-
-    packet
-    Party {
-	uint32
-price  ,	} 
-packet Ack
-{	@rightPad( '\x00') char[	6
-    ]  x
-    ,	repeat char[ 4
-
-    ] 
-Flags ,zchar[
-    9  ] f1
-	,
-    }	packet Cancel{
-
-Ack
-	,
-
-}
-	packet Heartbeat {string
-    Px , string
-
-Acct
-,f64 
-Side2
-, InQty24 { i16
-seqNo ,
-repeat
-i32  Flags ,
-
-    }  , }
-
-root packet
-Logon{
-    Trade ,  i64
-	venue ,
-    u32 x
-,u8
-seqNo 
-, match
-
-seqNo
-	as
-    Body  { 
-[
-1 , 164
-]
-: 
-Ack , 31 :
-    Cancel
-    , 23
-
-: Heartbeat
-    , 64
-
-    :
-    Party
-    , }
-, }
-
-")).
-Eval vm_compute in ("<<<M659>>>" ++ check (runes_of_ascii "options
-    {
-metadata = ""a\""b""
-;
-    int
-    = true
-; chars ='\x00';
-    string_ = '\x00'
-; }packet x { match As as
-    tag{ 1 :zchar, ""a	b"" // packet A { u8 x, }
-: len,
-} , Pad i64_ , // " ++ [27880; 37322]%N ++ runes_of_ascii "
-@tag(3
-)leftPad {// trailing space 
-body , } ,char[]i8i8 `{ , }` ,charz { repeat
-u16
-zchar `two words` ,}
-//
-//	t
-, int64 Z9_// " ++ [27880; 37322]%N ++ runes_of_ascii "
-@calculatedFrom( ""a\\""
-)
-    , @rightPad ( '\x00'
-    ) metadata@lengthOf(i64_// `tick` ""quote"" 'q'
-) , @lengthOf( // @lengthOf(
-int
-) u32	u128 , // packet A { u8 x, }
-@tag( 10 )
-// " ++ [27880; 37322]%N ++ runes_of_ascii "
-// " ++ [128512]%N ++ runes_of_ascii " emoji
-@rightPad (
-    '\x00') //
-@tag( 007)
-float {	int32 Pad`" ++ [233]%N ++ runes_of_ascii "`  , i16	options1
-`` , repeatCount// @lengthOf(
-,	chars @lengthOf(  pack) ,
-    } ,
-repeat int
-{zchar[ 10]
-u `two words` , i64 Logon,
-}, }
-")).
-Eval vm_compute in ("<<<M1239>>>" ++ check (runes_of_ascii "packet Header{ @rightPad
-    (
-    '0' )
-char[] x_y_z, Header {	repeat zchar[ 00 ] leftPad ,
-    repeat
-f64 // a // b
-float `a\`  , match o	as pack{ ""1"":
-    asx ,65535
-: x// `tick` ""quote"" 'q'
-, 65535// @lengthOf(
-: i8i8
-, [//
-""" ++ [28040; 24687]%N ++ runes_of_ascii """]: matchKey } ,
-    repeat A , } ,
-    char[ 3]trueish, @calculatedFrom( """ ++ [128512]%N ++ runes_of_ascii """  )
-    f32a , } packet uint8x
-{
-//
-//x
-chars@lengthOf(  Logon
-) , @leftPad
-    (' ' )repeat zchar[
-1 ]	_x `// not a comment` ,	char[]
-body``
-,uint32 leftPad `line1
-line2`,
-repeat x_y_z { u8x msg_type // `tick` ""quote"" 'q'
-,
-} , @tag( 0 ) int16 i8i8 `tab	here`
-, repeat Pad `doc` ,
-repeat
-// packet A { u8 x, }
-//
-u ,
-    u8x
-@calculatedFrom(  ""x y"" )
-`two words` , }
-")).
-Eval vm_compute in ("<<<M1378>>>" ++ check (runes_of_ascii "options{
-    A = ""\n"" ; matchKey = 4294967296 } root packet repeatCount
-{ rootA `{ , }`
-    , @tag(0 )	@tag(  007 )
-    string
-    packetx
-    ,  repeat // c
-u128
-u128	`u8 x,`	, @leftPad
-    ( ' '	)
-    i64_ @calculatedFrom(""`tick`""	)
-    // @lengthOf(
-    `it's`
-, char[ 00 ] lengthOf `it's` , Foo`u8 x,`, zchar[
-65535] i64_ , char[
-    // c
-    0	]_x
-    ,
-    repeat zchar[0123456789]	u
-,  @tag(
-    10 // trailing space 
-)
-/// triple
-// packet A { u8 x, }
-int64 pack
-@calculatedFrom( ""packet""
-    )
-`u8 x,`
-// a // b
-// trailing space 
-, } packet
+, leftPad i64_ `it's` 
+    // a // b
+  // packet A { u8 x, }
+,	// " ++ [27880; 37322]%N ++ runes_of_ascii "
+    @tag( 
+7)
     float
-// a // b
-//x
-{@tag(
-0
-    // " ++ [27880; 37322]%N ++ runes_of_ascii "
-    )
-char[0
-]
-stringy `" ++ [28040; 24687; 31867; 22411]%N ++ runes_of_ascii "`	, } /// triple")).
-Eval vm_compute in ("<<<M847>>>" ++ check (runes_of_ascii "options// trailing space 
-{ o =	007
-    // packet A { u8 x, }
-    ;
-}
-    root packet options1 {//
-@rightPad () zchar[ 65535 ] x, @lengthOf( lengthOf	)x metadata // @lengthOf(
-, // `tick` ""quote"" 'q'
-@tag(
-007  )int64
-uint8x
-// @lengthOf(
-//x
-@lengthOf(i64_ )//x
-`a\`, @calculatedFrom(""1"" )	@tag(
-007 ) repeat	u32 metadata
-, // a // b
-match
-    As
-as rootA {
-""a\""b"" :As
+
 ,
-} ,@calculatedFrom(
-""CRC32"" ) uint16 As
-@calculatedFrom(
-    ""a	b"")
-`" ++ [28040; 24687; 31867; 22411]%N ++ runes_of_ascii "` ,@lengthOf( A) u int `" ++ [233]%N ++ runes_of_ascii "`, i64_ MetaDataX , leftPad
-    , @lengthOf(
-_x) body `two words` ,
-    } MetaData repeatCount
-{ charz	packetx ,  float32 f32a ,
-}
-")).
-Eval vm_compute in ("<<<M877>>>" ++ check (runes_of_ascii "root packet A { @tag( 42	)
-    match // @lengthOf(
-Logon as rootA { 0123456789
-: int } ,
-repeat char[]
-uint8x `crlf
-line`, int {
-// `tick` ""quote"" 'q'
-//
-repeat
-f64 Packet , uint8x  @calculatedFrom(
-    ""1"" ) , string  x `it's` , }	, @lengthOf( Foo )
-@calculatedFrom(""a	b""
-) @lengthOf( body)
-metadata {match	pack as matchKey { ""x y"" : falsey , ""it's"" //
-: Header}	, body {
-char[] len  , /// triple
-} , }
-, char[
-    // a // b
-    0123456789
-    ]	T
-    // " ++ [128512]%N ++ runes_of_ascii " emoji
-    @calculatedFrom(
-    ""`tick`"" )
-    , }options{ len =' '	} MetaData
-As {
-    f64 As , char[ 0123456789 ] x
-,}
-")).
-Eval vm_compute in ("<<<M4189>>>" ++ check (runes_of_ascii "packet i8i8 {
-    char[] string_ `tab	here`,
-    @lengthOf(T)
-    @lengthOf(uint8x)
-    @rightPad('\x00')
-    zchar[4294967296] f32a @calculatedFrom(""CRC32"") `it's`,
-}// @lengthOf(
+	int32 x_y_z
 
-root packet A {
-    @rightPad()
-    @calculatedFrom(""" ++ [233]%N ++ runes_of_ascii "t" ++ [233]%N ++ runes_of_ascii """)
-    string T `crlf
-    line`,
-    u64 falsey `two words`,
-    zchar[65535] lengthOf `doc`,
-    match crc as int {
-        [""packet"", ""it's""] : body,
-        007 : leftPad,
-        ""{,}"" : Z9_,
-        [
-            0123456789, 00, ""a\\"", """ ++ [128512]%N ++ runes_of_ascii """, ""\" ++ [233]%N ++ runes_of_ascii """,
-            ""`tick`"", ""it's"", """ ++ [233]%N ++ runes_of_ascii "t" ++ [233]%N ++ runes_of_ascii """
-        ] : x_y_z,
-    },
-}")).
-Eval vm_compute in ("<<<M3891>>>" ++ check (runes_of_ascii "MetaData a1 {
-    // `tick` ""quote"" 'q'
-    //	t
-    _x asx,
-}
-
-MetaData Packet {
-    BodyLength int,
-}
-
-root packet x {
-    @leftPad(' ')
-    f64 repeatCount @lengthOf(x) `line1
-        line2`,
-    @rightPad('\x00')
-    match i8i8 as pack {
-        [
-            10, """ ++ [128512]%N ++ runes_of_ascii """, 10, ""a	b"", 1,
-            7
-        ] : leftPad,
-        [
-            255, 10, 0, 1, """ ++ [233]%N ++ runes_of_ascii "t" ++ [233]%N ++ runes_of_ascii """,
-            ""x y""
-        ] : A,
-        """ ++ [28040; 24687]%N ++ runes_of_ascii """ : u,
-        00 : charz,
-        // a // b
-        """ ++ [28040; 24687]%N ++ runes_of_ascii """ : len,
-        0 : As,
-    },
-    f32 x `" ++ [233]%N ++ runes_of_ascii "`,
-}
-
-MetaData x {
-}")).
-Eval vm_compute in ("<<<M4394>>>" ++ check (runes_of_ascii "MetaData
-    //	t
-  u
-	{  int8
-	body,
-string Packet ,}	options  // `tick` ""quote"" 'q'
-
-  {	matchKey  =
-
-    float64
-	;} packet roots {  // " ++ [128512]%N ++ runes_of_ascii " emoji
-@calculatedFrom(	""abc""	)  match
-MetaDataX
-        // " ++ [27880; 37322]%N ++ runes_of_ascii "
-  	// c
-		as  // " ++ [27880; 37322]%N ++ runes_of_ascii "
-  _x{
-007
-
-    :o [ 42  ,  ""x y"" , 65535
-,
-1 ,
-    65535 ,
-
-""a	b""
-, 4294967296,  00
-	]:f32a
-
-    ""CRC32"" : repeatCount  ,
-
-    ""CRC32"" :u128
-    ,	}	, } 
-options { } MetaData 
-uint8x
-{ char[] 
-u128
-
-, body
-
-crc `
-`
-
-    ,  lengthOf	rootA , 	 // " ++ [128512]%N ++ runes_of_ascii " emoji
-i8 crc ,
-
-    }")).
-Eval vm_compute in ("<<<M1043>>>" ++ check (runes_of_ascii "options {
-    } root
-    packet u8x { options1 { Header @lengthOf( x_y_z
-) , u16  f32a ,} , zchar[ 4294967296 ]leftPad
-    , repeat char[
-    007 ]//	t
-trueish, int
-@calculatedFrom( """ ++ [28040; 24687]%N ++ runes_of_ascii """ )
-    // c
     ,
+
+    repeat  roots
+{
+	zchar[ 10	]
+
+a1
+,  f32a	options1 `crlf
+line`,
     match
-    i64_  as chars{""" ++ [128512]%N ++ runes_of_ascii """	:// a // b
-Logon, 42 : matchKey
-    65535 :	u , [ 4294967296
+
+_x
+    // @lengthOf(
+as	zchar{  1	:u8x 
 ,
-65535
-] :As ,} ,
-@rightPad // a // b
-( '\x00')
-    @tag(
-42 )
-    // packet A { u8 x, }
-    i32 Pad// " ++ [128512]%N ++ runes_of_ascii " emoji
-`two words`
-, // c
-@tag(
-    // c
-    00 )
-    f32a`tab	here` ,
-    }
-")).
-Eval vm_compute in ("<<<M1277>>>" ++ check (runes_of_ascii "MetaData o{ i16 len // @lengthOf(
-, }  packet msg_type{ chars roots
-    // @lengthOf(
-    , // trailing space 
-repeat char[ 0  ] packetx `{ , }` //x
-, @rightPad( '\x00'	)
-    // @lengthOf(
-    repeat i64 x
-, match packetx // " ++ [128512]%N ++ runes_of_ascii " emoji
-as  packetx{ 65535:x [ ""\n""
-    // a // b
-    , 3 ]:Logon,  } , BodyLength @calculatedFrom(
-""{,}"" )
-    // trailing space 
-    , repeat pack// c
-Z9_ , x
-    i8i8 ,
-} options
-    { int=
-    ""abc"" ; u
-= ""abc""	int = '0'
-;
-    }
-")).
-Eval vm_compute in ("<<<M3968>>>" ++ check (runes_of_ascii "packet crc {
-    @leftPad(' ')
-    u64 packetx @lengthOf(trueish),
-    float `line1
-        line2`,
-    // packet A { u8 x, }
-    // trailing space 
-}
+""// no comment"":	float 
+,
 
-packet msg_type {
-    zchar[3] i8i8 @lengthOf(u),
-    char[] roots,
-    match x_y_z as uint8x {
-        ""a	b"" : body,
-    },
-    @tag(42)
-    @rightPad('0')
-    Packet @calculatedFrom(""1"") `
-        `,
-    @lengthOf(MetaDataX)
-    i32 trueish,
-    @rightPad(' ')
-    u128 @lengthOf(_x),
-}")).
-Eval vm_compute in ("<<<M1302>>>" ++ check (runes_of_ascii "packet packetx
-    {match _x
-as // a // b
-rootA {
-3 :  leftPad } // " ++ [27880; 37322]%N ++ runes_of_ascii "
-, u32 stringy// c
-, @rightPad // " ++ [128512]%N ++ runes_of_ascii " emoji
-(// trailing space 
-' '
-)
-    @lengthOf( A // " ++ [128512]%N ++ runes_of_ascii " emoji
-) string msg_type `u8 x,`, match string_  as body { [ 42 ,
-    // @lengthOf(
-    ""1""	,""packet"" , """ ++ [128512]%N ++ runes_of_ascii """ , ""packet"" ,
-0123456789 ]
-    //	t
-    :
-    calculatedFrom } , //	t
-u8 Packet , @lengthOf( // `tick` ""quote"" 'q'
-lengthOf )repeat u8x asx
-`doc` ,  }
-")).
-Eval vm_compute in ("<<<M3613>>>" ++ check (runes_of_ascii "packet Frame {
-    u8 HK,
-    u8 BK,
-    u8 TK,
-    match HK as Hdr {
-        1 : HdrA,
-        2 : HdrB,
-    },
-    match BK as Body {
-        1 : BodyA,
-        2 : BodyB,
-    },
-    match TK as Trl {
-        1 : TrlA,
-    },
-}
-packet HdrA {
-    u8 a,
-}
-packet HdrB {
-    u16 b,
-}
-packet BodyA {
-    u32 c,
-}
-packet BodyB {
-    u64 d,
-}
-packet TrlA {
-    u8 e,
-}
-root packet Msg {
-    Frame,
-    u8 x,
-}
-")).
-Eval vm_compute in ("<<<M624>>>" ++ check (runes_of_ascii "packet  x_y_z
-    // @lengthOf(
-    { @tag( 1
-/// triple
-//
-) A @calculatedFrom(""a\""b""	) , match Pad as lengthOf{ 007 :u128 , }	, match
-chars as roots
-    {1	: roots , [ 1
-    ] :
-    A
-, // " ++ [27880; 37322]%N ++ runes_of_ascii "
-""a	b"" : roots
-[	""abc"" , 0
-    ] :
-    // trailing space 
-    u128 ,
-    }
-    , repeat i64
-i8i8 , @calculatedFrom( """ ++ [233]%N ++ runes_of_ascii "t" ++ [233]%N ++ runes_of_ascii """ )BodyLength,
-@tag( 255 ) string u8x ,
-    BodyLength options1 `
-`
-, }
-")).
-Eval vm_compute in ("<<<M4392>>>" ++ check (runes_of_ascii "root packet As {
-    u {
-        tag a1,
-        repeat charz `a\`,
-    },
-    match float as u128 {
-        ""a\\"" : msg_type,
-        ""`tick`"" : packetx,
-    },
-    repeat char[255] falsey `two words`,
-    f32 packetx,
-    zchar[0] options1 `{ , }`,
-    repeat rootA `
-        `,
-}
+    [4294967296
+    ,10	,
+""" ++ [233]%N ++ runes_of_ascii "t" ++ [233]%N ++ runes_of_ascii """
 
-MetaData Header {
-    u32 Header ``,
-}
-
-//x
-//x
-MetaData matchKey {
-    msg_type Z9_,
-}")).
-Eval vm_compute in ("<<<M4250>>>" ++ check (runes_of_ascii "  packet	Foo 
-{char[ 10
-    ] 
-f32a @lengthOf( calculatedFrom
-) `crlf
-line`
-
-,  match
-	pack as	A	// `tick` ""quote"" 'q'
-		{
-	""" ++ [233]%N ++ runes_of_ascii "t" ++ [233]%N ++ runes_of_ascii """ :
-
-    f32a	/// triple
+    ,""" ++ [28040; 24687]%N ++ runes_of_ascii """,
+    1
+	]
+	:
+u128 	 // trailing space 
     ,
+    [""\" ++ [233]%N ++ runes_of_ascii """ ,  //x
+      42// " ++ [128512]%N ++ runes_of_ascii " emoji
+  ]
+	:stringy
+,
+
 [
-    ""x y"" ,""`tick`""]	:
-falsey ,	""x y"" 
 
-//x
-:
-
-Foo
-    ,7: chars// c
-,	""{,}""
-    :  u128,255 : 
-A
-
-,
-	}
-    ,
-
-    string
-    //x
-	// trailing space 
-T	`
-`
-    ,
-
-    }/// triple
- 
-")).
-Eval vm_compute in ("<<<M357>>>" ++ check (runes_of_ascii "options
-{
-// @lengthOf(
-// " ++ [128512]%N ++ runes_of_ascii " emoji
-x = 10//
-; x_y_z//
-=
-    true	;
-Logon =
-    i32 T =
-    0 }
-MetaData
-f32a	{ zchar len,
-    }
-    options {string_
-// c
-//
-= zchar[
-007 ] ;
-x_y_z = '0'
-    ;
-}MetaData msg_type // " ++ [27880; 37322]%N ++ runes_of_ascii "
-{ lengthOf msg_type `two words`
-    ,	i64 crc , packetx  zchar
-`// not a comment`
-, string// c
-falsey `tab	here` , }
-")).
-Eval vm_compute in ("<<<M1996>>>" ++ check (runes_of_ascii "MetaData
-    u { }  options {
-// c
-// @lengthOf(
-float = int8 ;rootA =false ; As =	int16 // `tick` ""quote"" 'q'
-repeatCount
-    // trailing space 
-    =
-    int16
-; u8x =
-    //	t
-    '\x00' ; } options	{
-    repeatCount repeatCount
-= 0
-u128
-    //
-    = false ; i64_
-// trailing space 
-// `tick` ""quote"" 'q'
-= '0' ; //	t
-}
-")).
-Eval vm_compute in ("<<<M2028>>>" ++ check (runes_of_ascii "MetaData
-    u { }  options {
-// c
-// @lengthOf(
-float = int8 ;rootA =false ; As =	int16 // `tick` ""quote"" 'q'
-repeatCount
-    // trailing space 
-    =
-    int16
-; u8x =
-    //	t
-    '\x00' ; } options	{
-    repeatCount
-= 0
-u128
-    //
-    = false packet i64_
-// trailing space 
-// `tick` ""quote"" 'q'
-= '0' ; //	t
-}
-")).
-Eval vm_compute in ("<<<M1956>>>" ++ check (runes_of_ascii "MetaData
-    u { }  options {
-// c
-// @lengthOf(
-float = int8 ;rootA =false ; As =	int16 // `tick` ""quote"" 'q'
-repeatCount
-    // trailing space 
-    =
-    int16
-; ; u8x =
-    //	t
-    '\x00' ; } options	{
-    repeatCount
-= 0
-u128
-    //
-    = false ; i64_
-// trailing space 
-// `tick` ""quote"" 'q'
-= '0' ; //	t
-}
-")).
-Eval vm_compute in ("<<<M2066>>>" ++ check (runes_of_ascii "MetaData
-    u { }  options {
-// c
-// @lengthOf(
-float = int8 ;rootA =false ; As =	int16 // `tick` ""quote"" 'q'
-repeatCount
-    // trailing space 
-    =
-    int16
-; u8x =
-    //	t
-    '\x00' ; } options	{
-    repeatCount
-= 0
-u128
-    //
- '   = false ; i64_
-// trailing space 
-// `tick` ""quote"" 'q'
-= '0' ; //	t
-}
-")).
-Eval vm_compute in ("<<<M1973>>>" ++ check (runes_of_ascii "MetaData
-    u { }  options {
-// c
-// @lengthOf(
-float = int8 ;rootA =false ; As =	int16 // `tick` ""quote"" 'q'
-repeatCount
-    // trailing space 
-    =
-    int16
-; u8x =
-    //	t
-    string ; } options	{
-    repeatCount
-= 0
-u128
-    //
-    = false ; i64_
-// trailing space 
-// `tick` ""quote"" 'q'
-= '0' ; //	t
-}
-")).
-Eval vm_compute in ("<<<M1945>>>" ++ check (runes_of_ascii "MetaData
-    u { }  options {
-// c
-// @lengthOf(
-float = int8 ;rootA =false ; As =	int16 // `tick` ""quote"" 'q'
-repeatCount
-    // trailing space 
-    
-    int16
-; u8x =
-    //	t
-    '\x00' ; } options	{
-    repeatCount
-= 0
-u128
-    //
-    = false ; i64_
-// trailing space 
-// `tick` ""quote"" 'q'
-= '0' ; //	t
-}
-")).
-Eval vm_compute in ("<<<M1885>>>" ++ check (runes_of_ascii "MetaData
-    u { }  options {
-// c
-// @lengthOf(
- = int8 ;rootA =false ; As =	int16 // `tick` ""quote"" 'q'
-repeatCount
-    // trailing space 
-    =
-    int16
-; u8x =
-    //	t
-    '\x00' ; } options	{
-    repeatCount
-= 0
-u128
-    //
-    = false ; i64_
-// trailing space 
-// `tick` ""quote"" 'q'
-= '0' ; //	t
-}
-")).
-Eval vm_compute in ("<<<M3521>>>" ++ check (runes_of_ascii "// top
-packet // c0
-float // c1
-{ // c2
-repeat // c3
-i8i8 // c4
-MetaDataX // c5
-`it's` // c6
-, // c7
-rootA // c8
-, // c9
-repeat // c10
-int8 // c11
-int // c12
-, // c13
-match // c14
-repeatCount // c15
-as // c16
-x_y_z // c17
-{ // c18
-""{,}"" // c19
-: // c20
-Logon // c21
-, // c22
-} // c23
-, // c24
-} // c25
-")).
-Eval vm_compute in ("<<<M3623>>>" ++ check (runes_of_ascii "options {
-    LittleEndian = true;
-    StringPrefixLenType = u8;
-    ArrayPrefixLenType = u8;
-}
-packet Ack {
-}
-root packet Quote {
-    Ack,
-    InSym94 {
-        repeat Ack,
-    },
-    u16 msgKind,
-    u16 OrderId @lengthOf(Body),
-    match msgKind as Body {
-        [110, 48] : Ack,
-    },
-}
-")).
-Eval vm_compute in ("<<<M238>>>" ++ check (runes_of_ascii "MetaData
-    a1 { // a // b
-}options { o
-= 255
-; } packet f32a //
-{ uint8 _x	@calculatedFrom( ""x y""
-)	,}MetaData
-    options1
-{  f64 lengthOf `it's`
-,lengthOf metadata,	int8 crc
-`
-` /// triple
-,
-    char[0123456789//	t
-]o ,
-// " ++ [128512]%N ++ runes_of_ascii " emoji
-// packet A { u8 x, }
-char[] //	t
-a1,}
-")).
-Eval vm_compute in ("<<<M3994>>>" ++ check (runes_of_ascii "MetaData 
-calculatedFrom
-{
-
-    Foo
-uint8x
-
-    ,
-o	Packet  `a\`
-
-    ,
-	int8
-Packet  ,  As
-
-calculatedFrom	,
-}
-	options
-	{T 
-	    // trailing space 
-	  // c
-	  = 
-u64	; stringy 
-= /// triple
-  f64
-
-    ; BodyLength= 
-  // a // b
-    /// triple
-true ; 
-}
-
-")).
-Eval vm_compute in ("<<<M1625>>>" ++ check (runes_of_ascii "packet
-//	t
-// trailing space 
-_x {
-// packet A { u8 x, }
-// c
-char[
-3
-    ] u8x @lengthOf(
-u8x ) , @calculatedFrom(""" ++ [128512]%N ++ runes_of_ascii """ // @lengthOf(
-)
-i16	Foo
-@lengthOf(	string_
-    )`doc`	, repeat	i64 metadata , @lengthOf( string_
-@lengthOf( i8 // c
-u  `line1
-line2`	,
-}
-")).
-Eval vm_compute in ("<<<M1580>>>" ++ check (runes_of_ascii "packet
-//	t
-// trailing space 
-_x {
-// packet A { u8 x, }
-// c
-char[
-3
-    ] u8x @lengthOf(
-u8x ) , @calculatedFrom(""" ++ [128512]%N ++ runes_of_ascii """ // @lengthOf(
-)
-i16	Foo
-@lengthOf(	string_
-    int32`doc`	, repeat	i64 metadata , @lengthOf( string_
-) i8 // c
-u  `line1
-line2`	,
-}
-")).
-Eval vm_compute in ("<<<M1663>>>" ++ check (runes_of_ascii "packet
-//	t
-// trailing space 
-_x {
-// packet A { u8 x, }
-// c
-char[
-3
-    ] u8x @lengthOf(
-u8x ) , @calculatedFrom(""" ++ [128512]%N ++ runes_of_ascii """ // @lengthOf(
-)
-i16	Foo
-@lengthOf(	string_
-    )`doc`	, repeat	i64 metadata , @lengthOf( string_
-) i8 // c
-u  `line1
-line2`	,
-}
-" ++ [65279]%N ++ runes_of_ascii " ")).
-Eval vm_compute in ("<<<M1534>>>" ++ check (runes_of_ascii "packet
-//	t
-// trailing space 
-_x {
-// packet A { u8 x, }
-// c
-char[
-3
-    ] u8x @lengthOf(
-u8x , ) @calculatedFrom(""" ++ [128512]%N ++ runes_of_ascii """ // @lengthOf(
-)
-i16	Foo
-@lengthOf(	string_
-    )`doc`	, repeat	i64 metadata , @lengthOf( string_
-) i8 // c
-u  `line1
-line2`	,
-}
-")).
-Eval vm_compute in ("<<<M1507>>>" ++ check (runes_of_ascii "packet
-//	t
-// trailing space 
-_x {
-// packet A { u8 x, }
-// c
-char[
-
-    ] u8x @lengthOf(
-u8x ) , @calculatedFrom(""" ++ [128512]%N ++ runes_of_ascii """ // @lengthOf(
-)
-i16	Foo
-@lengthOf(	string_
-    )`doc`	, repeat	i64 metadata , @lengthOf( string_
-) i8 // c
-u  `line1
-line2`	,
-}
-")).
-Eval vm_compute in ("<<<M4261>>>" ++ check (runes_of_ascii "options {
-    chars = char;
-    o = true
-    u128 = ""x y"";
-}
-
-packet chars {
-    @calculatedFrom(""\n"")
-    repeat f64 packetx,
-    @tag(4294967296)
-    float32 Header,
-    zchar[007] float `// not a comment`,
-}
-
-options {
-    stringy = zchar[7];
-}")).
-Eval vm_compute in ("<<<M1545>>>" ++ check (runes_of_ascii "packet
-//	t
-// trailing space 
-_x {
-// packet A { u8 x, }
-// c
-char[
-3
-    ] u8x @lengthOf(
-u8x ) , int16""" ++ [128512]%N ++ runes_of_ascii """ // @lengthOf(
-)
-i16	Foo
-@lengthOf(	string_
-    )`doc`	, repeat	i64 metadata , @lengthOf( string_
-) i8 // c
-u  `line1
-line2`	,
-}
-")).
-Eval vm_compute in ("<<<M3678>>>" ++ check (runes_of_ascii "
-options
-
-    {
-trueish = ""`tick`""
-	;
-string_
-
-    =
-    """ ++ [233]%N ++ runes_of_ascii "t" ++ [233]%N ++ runes_of_ascii """ 
-        // c
-  }
-    root
-packet
-body  {
-	stringy
-@calculatedFrom(
-	""a	b""
-
-)
-
-    , } 
-packet Logon
-{
-
-@leftPad
-
-(
-' ' ) 	 //	t
-	u16	string_	`u8 x,`	,
-}
-
-")).
-Eval vm_compute in ("<<<M3794>>>" ++ check (runes_of_ascii "options {
-    calculatedFrom = false;
-}
-
-packet i64_ {
-    body,
-    //	t
-    //x
-}/// triple
-
-options {
-    float = true;// @lengthOf(
-    charz = char[65535];
-    u = true;
-    metadata = ""\" ++ [233]%N ++ runes_of_ascii """
-    matchKey = '\x00'
-}// " ++ [27880; 37322]%N)).
-Eval vm_compute in ("<<<M4482>>>" ++ check (runes_of_ascii "/// triple
-packet BodyLength {
-    @calculatedFrom(""packet"")
-    //x
-    char[] options1 @calculatedFrom(""\" ++ [233]%N ++ runes_of_ascii """),
-    zchar[255] metadata,
-}
-
-options {
-    int = '\x00';
-    stringy = false
-    T = 0
-    trueish = 10
-}")).
-Eval vm_compute in ("<<<M1822>>>" ++ check (runes_of_ascii "options { trueish = ""`tick`"" ; string_= """ ++ [233]%N ++ runes_of_ascii "t" ++ [233]%N ++ runes_of_ascii """
-    // c
-    } root
-    packet body { stringy @calculatedFrom(
-""a	b"" ) `line1
-line2` , }
-packet Logon {
-    @leftPad(
-    ' ' ) //	t
-u16 string_ `u8 x,` `u8 x,` ,
-}
-")).
-Eval vm_compute in ("<<<M1812>>>" ++ check (runes_of_ascii "options { trueish = ""`tick`"" ; string_= """ ++ [233]%N ++ runes_of_ascii "t" ++ [233]%N ++ runes_of_ascii """
-    // c
-    } root
-    packet body { stringy @calculatedFrom(
-""a	b"" ) `line1
-line2` , }
-packet Logon {
-    @leftPad(
-    ' ' ) //	t
-u16 u16 string_ `u8 x,` ,
-}
-")).
-Eval vm_compute in ("<<<M124>>>" ++ check (runes_of_ascii "
-root packet crc{ u16	Z9_ `tab	here`,
-repeat rootA,
-    // trailing space 
-    }
-packet leftPad	{ @rightPad( )
-    @tag(  0 // a // b
-)repeat	i16 As `doc` , } MetaData  body // a // b
-{x f32a,  }
-// c
-")).
-Eval vm_compute in ("<<<M1733>>>" ++ check (runes_of_ascii "options { trueish = ""`tick`"" ; string_= """ ++ [233]%N ++ runes_of_ascii "t" ++ [233]%N ++ runes_of_ascii """
-    // c
-    } root
-    packet { body stringy @calculatedFrom(
-""a	b"" ) `line1
-line2` , }
-packet Logon {
-    @leftPad(
-    ' ' ) //	t
-u16 string_ `u8 x,` ,
-}
-")).
-Eval vm_compute in ("<<<M1706>>>" ++ check (runes_of_ascii "options { trueish = ""`tick`"" ; string_ """ ++ [233]%N ++ runes_of_ascii "t" ++ [233]%N ++ runes_of_ascii """
-    // c
-    } root
-    packet body { stringy @calculatedFrom(
-""a	b"" ) `line1
-line2` , }
-packet Logon {
-    @leftPad(
-    ' ' ) //	t
-u16 string_ `u8 x,` ,
-}
-")).
-Eval vm_compute in ("<<<M1779>>>" ++ check (runes_of_ascii "options { trueish = ""`tick`"" ; string_= """ ++ [233]%N ++ runes_of_ascii "t" ++ [233]%N ++ runes_of_ascii """
-    // c
-    } root
-    packet body { stringy @calculatedFrom(
-""a	b"" ) `line1
-line2` , }
-, Logon {
-    @leftPad(
-    ' ' ) //	t
-u16 string_ `u8 x,` ,
-}
-")).
-Eval vm_compute in ("<<<M1989>>>" ++ check (runes_of_ascii "MetaData
-    u { }  options {
-// c
-// @lengthOf(
-float = int8 ;rootA =false ; As =	int16 // `tick` ""quote"" 'q'
-repeatCount
-    // trailing space 
-    =
-    int16
-; u8x =
-    //	t
-    '\x00' ; }")).
-Eval vm_compute in ("<<<M1041>>>" ++ check (runes_of_ascii "// @lengthOf(
-options {
-    } // c
-root packet Packet {@calculatedFrom( """" )
-    x u128 `" ++ [28040; 24687; 31867; 22411]%N ++ runes_of_ascii "`  ,
-    }
-options { msg_type =  i16 ; packetx= false falsey= ""x y"" ;
-packetx = 1 ; As = true }")).
-Eval vm_compute in ("<<<M3575>>>" ++ check (runes_of_ascii "// top
-root // c0
-packet // c1
-P // c2a
-  // c2b
-{ u8 // c4
-s_u8 // c5
-, // c6a
-  // c6b
-repeat // c7a
-  // c7b
-u8 r_u8
-    // c9
-, // c10a
-  // c10b
-u16 b_len , } // c14a
-  // c14b
-")).
-Eval vm_compute in ("<<<M341>>>" ++ check (runes_of_ascii "packet A
-    { @rightPad (' '
-    )/// triple
-@calculatedFrom(""" ++ [233]%N ++ runes_of_ascii "t" ++ [233]%N ++ runes_of_ascii """	) int16
-    crc
-`tab	here` // " ++ [128512]%N ++ runes_of_ascii " emoji
-, }  MetaData x
-// `tick` ""quote"" 'q'
-// " ++ [27880; 37322]%N ++ runes_of_ascii "
-{
-}
-// trailing space 
-")).
-Eval vm_compute in ("<<<M997>>>" ++ check (runes_of_ascii "options { int = zchar[ // packet A { u8 x, }
-65535] ; zchar
-//x
-// trailing space 
-=  ' ' ;
-chars= // packet A { u8 x, }
-""\" ++ [233]%N ++ runes_of_ascii """ ;
-    Z9_  = '\x00' ;x_y_z = //	t
-false }")).
-Eval vm_compute in ("<<<M2332>>>" ++ check (runes_of_ascii "// c
-packet x { @lengthOf( metadata metadata ) repeat lengthOf
-,a1{
-trueish	,// c
-repeat//	t
-MetaDataX , } , zchar[
-    42	] rootA // `tick` ""quote"" 'q'
-,
-    }
-")).
-Eval vm_compute in ("<<<M2335>>>" ++ check (runes_of_ascii "// c
-packet x { @lengthOf( metadata ) repeat lengthOf
-'\x01',a1{
-trueish	,// c
-repeat//	t
-MetaDataX , } , zchar[
-    42	] rootA // `tick` ""quote"" 'q'
-,
-    }
-")).
-Eval vm_compute in ("<<<M2376>>>" ++ check (runes_of_ascii "// c
-packet x { @lengthOf( metadata ) repeat lengthOf
-,char[{
-trueish	,// c
-repeat//	t
-MetaDataX , } , zchar[
-    42	] rootA // `tick` ""quote"" 'q'
-,
-    }
-")).
-Eval vm_compute in ("<<<M2313>>>" ++ check (runes_of_ascii "// c
-packet x { @lengthOf( metadata ) repeat lengthOf
-,a1{
-trueish	,// c
-repeat//	t
-MetaDataX , } , zchar[
-    42	] rootA // `tick` ""quote"" 'q'
-,
-" ++ [8232]%N ++ runes_of_ascii "    }
-")).
-Eval vm_compute in ("<<<M2324>>>" ++ check (runes_of_ascii "// c
-packet x { @lengthOf( metadata ) repeat lengthOf
-,a1{
-trueish	repeat// c
-,//	t
-MetaDataX , } , zchar[
-    42	] rootA // `tick` ""quote"" 'q'
-,
-    }
-")).
-Eval vm_compute in ("<<<M2354>>>" ++ check (runes_of_ascii "// c
-packet x { @lengthOf( metadata ) char[ lengthOf
-,a1{
-trueish	,// c
-repeat//	t
-MetaDataX , } , zchar[
-    42	] rootA // `tick` ""quote"" 'q'
-,
-    }
-")).
-Eval vm_compute in ("<<<M2161>>>" ++ check (runes_of_ascii "options{
-_x
-= true
-} options
-{ o	= /// triple
-false
-    ; chars
-= ""\n"" } root Pad	packet
-/// triple
-// packet A { u8 x, }
-{	chars
+    1  // " ++ [27880; 37322]%N ++ runes_of_ascii "
+	,	""\n""]: falsey 
     // a // b
-    ,}")).
-Eval vm_compute in ("<<<M2315>>>" ++ check (runes_of_ascii "// c
-packet x { @lengthOf( metadata ) repeat lengthOf
-,a1{
-trueish	,// c
-repeat//	t
-`" ++ [28040; 24687; 31867; 22411]%N ++ runes_of_ascii "` , } , zchar[
-    42	] rootA // `tick` ""quote"" 'q'
 ,
-    }
-")).
-Eval vm_compute in ("<<<M2177>>>" ++ check (runes_of_ascii "options{
-_x
-= true
-} options
-{ o	= /// triple
-false
-    ; chars
-= ""\n"" } root packet	Pad
-/// triple
-// packet A { u8 x, }
-{	=
-    // a // b
-    ,}")).
-Eval vm_compute in ("<<<M772>>>" ++ check (runes_of_ascii "
-MetaData string_ //	t
-{ stringy metadata
-    , // packet A { u8 x, }
-lengthOf int
-``,
-    f32a u8x	,
-u32//
-tag ,	falsey repeatCount ,
-    }
-")).
-Eval vm_compute in ("<<<M4150>>>" ++ check (runes_of_ascii "packet As {
+
+},string 
+charz @calculatedFrom("""" )
+,} ,  char[]
+	options1
+    `
+`
+
+    , 
+//	t
+	/// triple
+      u8x
+    {  repeat msg_type
+matchKey `u8 x,` 
+,  }
+
+, A
+
+    @lengthOf( //x
+	pack )//	t
+,
+
+i64
+    stringy , }packet
+    i8i8 
+{
+
+i64_
+	u128
+	, @lengthOf(u8x 	 //
+    	)repeat
+
+float64
+	f32a	,	@calculatedFrom(
+
+""`tick`"" )
+pack
+
+    `" ++ [233]%N ++ runes_of_ascii "`, uint64 Z9_@calculatedFrom(
+
+"""" 
+)  `tab	here`
+
+,} ")).
+Eval vm_compute in ("<<<M1588>>>" ++ check (runes_of_ascii "root packet Foo {
+    Packet {
+        u32 chars `{ , }`,
+        zchar[255] Foo,
+    },
+    f32a @lengthOf(MetaDataX) `doc`,
+    As `say ""hi""`,
+    char[] crc @calculatedFrom(""" ++ [28040; 24687]%N ++ runes_of_ascii """) `say ""hi""`,
+    int32 T `// not a comment`,
+    @lengthOf(x)
+    //
+    pack {
+        match i8i8 as trueish {
+            ""x y"" : BodyLength,
+            [
+                ""\n"", 007, ""// no comment"", 42, ""1"",
+                65535, 10
+            ] : a1,
+            [""{,}""] : metadata,
+            ""a	b"" : As,
+        },
+    },
+    match f32a as A {
+        ""abc"" : rootA,
+        4294967296 : Z9_,
+        [
+            007, ""a\""b"", 00, 42, 1,
+            0123456789, ""x y""
+        ] : Foo,
+    },
+    char[7] i64_ `it's`,
+    @lengthOf(pack)
+    repeat As,
 }
 
 MetaData charz {
-    i64 falsey,
-    A msg_type,
-    char[3] trueish `say ""hi""`,
-    float32 calculatedFrom,
-    string i8i8,
+    u64 asx,
+}
+
+packet x {
+}
+
+MetaData MetaDataX {
+    A a1,
+    char[] x `a\`,
+    uint16 leftPad,
+}
+
+options {
+    a1 = 42;
+    BodyLength = true;
+    x_y_z = int16
 }")).
+Eval vm_compute in ("<<<M206>>>" ++ check (runes_of_ascii "options{ }root // a // b
+packet
+    uint8x {  @tag( 3 ) @lengthOf(  falsey ) lengthOf @calculatedFrom(
+""`tick`"" ), A { i8 msg_type
+`crlf
+line` ,
+Foo @lengthOf( u8x
+) ,float ,
+    //
+    }
+, string // a // b
+lengthOf
+@calculatedFrom(	""abc"" )
+, @lengthOf(charz )
+    repeat string_	{// " ++ [128512]%N ++ runes_of_ascii " emoji
+zchar[
+    0
+    // a // b
+    ] T @calculatedFrom( ""a\\"" ) //	t
+, zchar[
+    42 ] repeatCount @lengthOf(
+Z9_ )`u8 x,`,}
+,  zchar[1
+    ]
+crc @calculatedFrom( // " ++ [27880; 37322]%N ++ runes_of_ascii "
+""// no comment"" )
+    `it's`
+    // `tick` ""quote"" 'q'
+    , @calculatedFrom(""{,}"")
+    tag
+int//
+, //x
+}
+MetaData f32a { // trailing space 
+i64 int // c
+,string int
+    , // c
+asx
+    //x
+    Pad
+    //x
+    `crlf
+line` , string lengthOf,
+    uint32
+pack ,// " ++ [27880; 37322]%N ++ runes_of_ascii "
+msg_type
+    u `it's` ,
+}")).
+Eval vm_compute in ("<<<M1510>>>" ++ check (runes_of_ascii "// top
+packet
+    // c0
+MDSnapshotZZ // c1a
+  // c1b
+{ // c2
+u8 // c3a
+  // c3b
+a
+    // c4
+, // c5
+} packet // c7
+OrderACK
+    // c8
+{
+    // c9
+u16 // c10
+b // c11
+, }
+    // c13
+packet // c14
+HTTPServerInfo // c15a
+  // c15b
+{ // c16a
+  // c16b
+string // c17a
+  // c17b
+s // c18
+, } // c20
+root packet
+    // c22
+FIXMsg
+    // c23
+{ // c24a
+  // c24b
+u8 // c25a
+  // c25b
+KType
+    // c26
+, // c27
+MDSnapshotZZ // c28
+, repeat
+    // c30
+OrderACK // c31a
+  // c31b
+, // c32a
+  // c32b
+match KType as Body
+    // c36
+{ // c37a
+  // c37b
+1 // c38
+: // c39
+HTTPServerInfo , 2 : // c43a
+  // c43b
+OrderACK
+    // c44
+, // c45
+} // c46
+,
+    // c47
+} // c48
+")).
+Eval vm_compute in ("<<<M1557>>>" ++ check (runes_of_ascii "options {
+    LittleEndian = false;
+    ArrayPrefixLenType = u8;
+    FixedStringPadChar = '0';
+}
+packet Order {
+    InNote94 {
+        f32 f1,
+        f64 Side2,
+        repeat InTail47 {
+            char[] seqNo,
+            char[] Tail,
+            char[] lastPx,
+        },
+    },
+    zchar[7] f1,
+    u8 Side2,
+}
+root packet Reject {
+    repeat char[4] Flags,
+    InPrice63 {
+        InSeqno41 {
+            repeat i8 OrderId,
+            repeat i32 clOrdID,
+            char[9] tag7,
+            char[] lastPx,
+        },
+        Order,
+        uint8 Side2,
+    },
+}
+")).
+Eval vm_compute in ("<<<M1519>>>" ++ check (runes_of_ascii "// top
+root // c0
+packet Frame {
+    // c3
+u8 K ,
+    // c6
+Logon // c7a
+  // c7b
+first , // c9a
+  // c9b
+match
+    // c10
+K
+    // c11
+as // c12
+Body // c13a
+  // c13b
+{ // c14a
+  // c14b
+1 : // c16a
+  // c16b
+Logon , // c18a
+  // c18b
+2 :
+    // c20
+Logout
+    // c21
+, // c22
+} , }
+    // c25
+packet Logon // c27
+{ // c28
+string // c29
+user // c30a
+  // c30b
+, // c31a
+  // c31b
+} // c32a
+  // c32b
+packet
+    // c33
+Logout { // c35
+u16 // c36
+reason
+    // c37
+, // c38a
+  // c38b
+}
+    // c39
+")).
+Eval vm_compute in ("<<<M1546>>>" ++ check (runes_of_ascii "options {
+    LittleEndian = true;
+    StringPrefixLenType = u16;
+    ArrayPrefixLenType = u64;
+}
+packet Fill {
+}
+packet Logon {
+    repeat char[3] Tail,
+    zchar[6] venue,
+    repeat string Side2,
+}
+root packet Cancel {
+    char[] Flags,
+    char[] OrderId,
+    zchar[6] msgKind,
+    Fill,
+    char[] Acct,
+    u8 f1,
+    match f1 as Body {
+        188 : Fill,
+        5 : Logon,
+    },
+    u32 clOrdID @calculatedFrom(""CRC32""),
+}
+")).
+Eval vm_compute in ("<<<M114>>>" ++ check (runes_of_ascii "packet BodyLength {  @tag(
+0 )
+    char[
+4294967296 ]
+    options1 , }
+    root packet asx{ repeat string //x
+zchar //	t
+,
+    repeat char string_ `" ++ [28040; 24687; 31867; 22411]%N ++ runes_of_ascii "` ,
+    } options{ rootA = zchar[ 00
+] ;len = ""a\""b"" ; float =7;uint8x= f64 ;// `tick` ""quote"" 'q'
+}root packet
+    stringy{trueish Foo , } packet
+pack{ u64
+// @lengthOf(
+// c
+repeatCount @lengthOf( Header
+    ) ,
+}
+
+")).
+Eval vm_compute in ("<<<M330>>>" ++ check (runes_of_ascii "root packet calculatedFrom { @lengthOf( asx )	T{
+repeat
+/// triple
+//x
+packetx A  ,
+match // " ++ [27880; 37322]%N ++ runes_of_ascii "
+string_ as msg_type { [""abc""] :
+As 0123456789 :  repeatCount
+    , ""a\""b"" :
+roots, } , },uint8x BodyLength `{ , }`
+, string  BodyLength,@leftPad(
+    '\x00'
+) repeat calculatedFrom { uint32 //	t
+trueish ,/// triple
+}, // c
+} // a // b")).
+Eval vm_compute in ("<<<M188>>>" ++ check (runes_of_ascii "packet options1 {// " ++ [128512]%N ++ runes_of_ascii " emoji
+@calculatedFrom( ""abc""
+) //
+repeat BodyLength , a1
+@lengthOf(
+    // trailing space 
+    i8i8
+    // " ++ [128512]%N ++ runes_of_ascii " emoji
+    ) ,
+    } packet	asx
+    {char[ 0] o`crlf
+line`
+,char[] options1 `crlf
+line`
+,
+@tag( 42 )
+    repeat Foo  ,
+asx @calculatedFrom(
+    ""`tick`"") ,}")).
+Eval vm_compute in ("<<<M604>>>" ++ check (runes_of_ascii "root packet tag { }  packet MetaDataX{char[007	]
+// c
+/// triple
+asx  @calculatedFrom( ""a\""b""
+) `say ""hi""`// " ++ [27880; 37322]%N ++ runes_of_ascii "
+,  @tag(4294967296 )
+    char[1//x
+] packetx @calculatedFrom(""a\""b"" ""a\""b""
+    ) ,
+// " ++ [128512]%N ++ runes_of_ascii " emoji
+// a // b
+@calculatedFrom(""" ++ [233]%N ++ runes_of_ascii "t" ++ [233]%N ++ runes_of_ascii """  ) repeat pack // " ++ [27880; 37322]%N ++ runes_of_ascii "
+,
+    } // c")).
+Eval vm_compute in ("<<<M494>>>" ++ check (runes_of_ascii "root packet tag { { }  packet MetaDataX{char[007	]
+// c
+/// triple
+asx  @calculatedFrom( ""a\""b""
+) `say ""hi""`// " ++ [27880; 37322]%N ++ runes_of_ascii "
+,  @tag(4294967296 )
+    char[1//x
+] packetx @calculatedFrom(""a\""b""
+    ) ,
+// " ++ [128512]%N ++ runes_of_ascii " emoji
+// a // b
+@calculatedFrom(""" ++ [233]%N ++ runes_of_ascii "t" ++ [233]%N ++ runes_of_ascii """  ) repeat pack // " ++ [27880; 37322]%N ++ runes_of_ascii "
+,
+    } // c")).
+Eval vm_compute in ("<<<M611>>>" ++ check (runes_of_ascii "root packet tag { }  packet MetaDataX{char[007	]
+// c
+/// triple
+asx  @calculatedFrom( ""a\""b""
+) `say ""hi""`// " ++ [27880; 37322]%N ++ runes_of_ascii "
+,  @tag(4294967296 )
+    char[1//x
+] packetx @calculatedFrom(""a\""b""
+    as ,
+// " ++ [128512]%N ++ runes_of_ascii " emoji
+// a // b
+@calculatedFrom(""" ++ [233]%N ++ runes_of_ascii "t" ++ [233]%N ++ runes_of_ascii """  ) repeat pack // " ++ [27880; 37322]%N ++ runes_of_ascii "
+,
+    } // c")).
+Eval vm_compute in ("<<<M600>>>" ++ check (runes_of_ascii "root packet tag { }  packet MetaDataX{char[007	]
+// c
+/// triple
+asx  @calculatedFrom( ""a\""b""
+) `say ""hi""`// " ++ [27880; 37322]%N ++ runes_of_ascii "
+,  @tag(4294967296 )
+    char[1//x
+] packetx ""a\""b""@calculatedFrom(
+    ) ,
+// " ++ [128512]%N ++ runes_of_ascii " emoji
+// a // b
+@calculatedFrom(""" ++ [233]%N ++ runes_of_ascii "t" ++ [233]%N ++ runes_of_ascii """  ) repeat pack // " ++ [27880; 37322]%N ++ runes_of_ascii "
+,
+    } // c")).
+Eval vm_compute in ("<<<M673>>>" ++ check (runes_of_ascii "root packet tag { }  packet MetaDataX{char[007	]
+// c
+/// triple
+asx  @calculatedFrom( ""a\""b""
+) `say ""hi""`// " ++ [27880; 37322]%N ++ runes_of_ascii "
+,  @tag(4294967296 )
+    char[1//x
+] packetx @calculatedFrom(""a\""b""
+    ) ,
+// " ++ [128512]%N ++ runes_of_ascii " emoji
+// a // b
+@calculatedFrom(""" ++ [233]%N ++ runes_of_ascii "t" ++ [233]%N ++ runes_of_ascii """  ) repeat x" ++ [178]%N ++ runes_of_ascii " // " ++ [27880; 37322]%N ++ runes_of_ascii "
+,
+    } // c")).
+Eval vm_compute in ("<<<M55>>>" ++ check (runes_of_ascii "// " ++ [27880; 37322]%N ++ runes_of_ascii "
+options { u8x
+=false}	packet crc
+{ @leftPad
+    ( // `tick` ""quote"" 'q'
+'\x00'
+)@calculatedFrom( ""a\""b"" ) char[] u@lengthOf(
+    x ), stringy
+charz	`" ++ [233]%N ++ runes_of_ascii "`
+// c
+// c
+,
+} packet
+// c
+//x
+tag {
+    string T,zchar[ 7
+    ] leftPad ,// `tick` ""quote"" 'q'
+}
+")).
+Eval vm_compute in ("<<<M89>>>" ++ check (runes_of_ascii "//	t
+packet
+packetx { zchar , @lengthOf( x_y_z )o ,
+}
+    packet  Packet // " ++ [128512]%N ++ runes_of_ascii " emoji
+{ match u128 as // a // b
+Header{ [
+    7
+    ,""1""
+]: u
+    , ""x y"" :
+charz 0123456789 : calculatedFrom
+//	t
+//x
+} ,// " ++ [27880; 37322]%N ++ runes_of_ascii "
+repeat  roots
+tag
+    ,}")).
+Eval vm_compute in ("<<<M1620>>>" ++ check (runes_of_ascii "packet
+Logon{ string
+	user
+	,
+    }
+	root	packet
+
+Frame  {u8 
+K	,
+    match
+
+    K	as
+
+Body
+{ 1
+	:
+Logon , 2
+    :  Logout
+, }, Tail
+
+, }
+    packet Logout
+    {  u16 reason
+	, }
+
+packet	Tail { u32
+crc ,} ")).
+Eval vm_compute in ("<<<M1520>>>" ++ check (runes_of_ascii "root packet
+	Frame
+
+    {	u8
+	K
+	,Logon
+
+    first  , match K	as
+Body{
+	1: Logon , 
+2 
+:
+Logout	,
+    }
+    , }packet Logon{ string
+user ,
+}
+    packet Logout
+	{ u16
+    reason
+,	}
+")).
+Eval vm_compute in ("<<<M224>>>" ++ check (runes_of_ascii "root
+packet Logon	{/// triple
+@calculatedFrom(
+    ""`tick`"" ) @rightPad ( ' '  )
+    @tag(
+    42 ) //	t
+char[ 3 ]
+trueish  @lengthOf(
+matchKey
+    // @lengthOf(
+    ) `" ++ [233]%N ++ runes_of_ascii "` ,}
+")).
+Eval vm_compute in ("<<<M402>>>" ++ check (runes_of_ascii "packet
+    // `tick` ""quote"" 'q'
+    crc
+// packet A { u8 x, }
+//	t
+{
+int64 a1 ,
+    // trailing space 
+    roots
+charz //
+`two words`,	}
+    MetaData int {
+} /// triple")).
+Eval vm_compute in ("<<<M1975>>>" ++ check (runes_of_ascii "packet A {
+    match k as n {
+        [
+            ""a"", ""bb"", 007, ""d"", ""e"",
+            66, ""g"", ""h"", 9, ""j"",
+            ""k"", 12
+        ] : B,
+        2 : C,
+    },
+}")).
+Eval vm_compute in ("<<<M388>>>" ++ check (runes_of_ascii "char[
+    // `tick` ""quote"" 'q'
+    crc
+// packet A { u8 x, }
+//	t
+{
+u32 a1 ,
+    // trailing space 
+    roots
+charz //
+`two words`,	}
+    MetaData int {
+} /// triple")).
+Eval vm_compute in ("<<<M678>>>" ++ check (runes_of_ascii " packet len // trailing space 
+{
+// " ++ [27880; 37322]%N ++ runes_of_ascii "
+//	t
+char[10
+] metadata	@lengthOf( o ) `crlf
+line`,
+    @rightPad
+( ' '
+) string
+    Header @calculatedFrom( ""a\\""
+    ), }
+")).
+Eval vm_compute in ("<<<M2124>>>" ++ check (runes_of_ascii "
+root
+	packet matchKey{ zchar[3
+    ] pack
+	@calculatedFrom( ""a	b""
+
+)
+	`doc` ,}
+
+    options  // c
+    {
+}
+    MetaData	A
+
+    { int8 msg_type,
+
+    }")).
+Eval vm_compute in ("<<<M1496>>>" ++ check (runes_of_ascii "
+packet A
+    { 
+u8	a
+,	} packet
+    B{  u16 b, } root	packet 
+P
+	{ u8  K , match  K
+as M
+	{
+
+[
+
+    1, 2	] :	A	,
+
+3
+    : B ,
+7:
+A  , }  , }
+")).
 Eval vm_compute in ("<<<M20>>>" ++ check (runes_of_ascii "options { x_y_z =  """ ++ [128512]%N ++ runes_of_ascii """
 /// triple
 // @lengthOf(
@@ -2397,316 +884,185 @@ options1 =
 packet
     charz {
     } // trailing space ")).
-Eval vm_compute in ("<<<M3580>>>" ++ check (runes_of_ascii "packet A {
-    u8 a,
-}
-packet B {
-    u16 b,
-}
-root packet P {
-    u8 K,
-    match K as M {
-        1 : A,
-        1 : B,
-    },
-}
-")).
-Eval vm_compute in ("<<<M1082>>>" ++ check (runes_of_ascii "packet i8i8 {
-@calculatedFrom( // @lengthOf(
-""it's"")@leftPad ( // " ++ [27880; 37322]%N ++ runes_of_ascii "
-'0'
-) @lengthOf(msg_type  )u8 Logon
-    `tab	here`,
-}
-")).
-Eval vm_compute in ("<<<M607>>>" ++ check (runes_of_ascii "options
-{ stringy=
-    '0' ; body// `tick` ""quote"" 'q'
-=  ""// no comment"" ; pack
-    =
-char[] } options
-{
-x =65535 } //x")).
-Eval vm_compute in ("<<<M3323>>>" ++ check (runes_of_ascii "root packet matchKey { zchar[ 3
-// c
-] pack @calculatedFrom( ""a	b"" ) `doc` , } options { } MetaData A { int8 msg_type , }")).
-Eval vm_compute in ("<<<M3355>>>" ++ check (runes_of_ascii "root packet matchKey { zchar[ 3 ] pack @calculatedFrom( ""a	b"" ) `doc` , } options { } MetaData A { int8 msg_type
-// c
-, }")).
-Eval vm_compute in ("<<<M1474>>>" ++ check (runes_of_ascii "
-packet
-    false" ++ [233]%N ++ runes_of_ascii "y { Header@calculatedFrom(""packet""  ) , char[
-    0123456789 ] packetx
-    , } // `tick` ""quote"" 'q'")).
-Eval vm_compute in ("<<<M1449>>>" ++ check (runes_of_ascii "
-packet
-    falsey { Header@calculatedFrom(""packet""  ) , char[
-    0123456789 packetx ]
-    , } // `tick` ""quote"" 'q'")).
-Eval vm_compute in ("<<<M3051>>>" ++ check (runes_of_ascii "packet A {
-    match k as n {
-        ""x\
-y"" : B,
-        [""x\
-y"", 1] : C,
-        [1,2,3,4,5,""x\
-y""] : D,
-    },
-}")).
-Eval vm_compute in ("<<<M2998>>>" ++ check (runes_of_ascii "packet A {
-  match k as n {
-    [""a"", ""bb"", 007, ""d"", ""e"", 66, ""g"", ""h"", 9, ""j"", ""k"", 12] : B,
-    2 : C
-  },
-}")).
-Eval vm_compute in ("<<<M4097>>>" ++ check (runes_of_ascii "
-packet
-
-A
-
-{ match k as
-n
-{[ 
-""a""
-
-, 22  ,""c c"" ,
-	4 , 
-""e"",
-
-66
-	,""g"" , 8	, ""i""] :B 2 :
-    C	}
-    , } ")).
-Eval vm_compute in ("<<<M2993>>>" ++ check (runes_of_ascii "packet A {
-  match k as n {
-    [1, ""bb"", 007, ""d"", 5, ""f"", 7, ""h"", 9, ""j"", 11, ""l""] : B
-    2 : C
-  },
-}")).
-Eval vm_compute in ("<<<M2972>>>" ++ check (runes_of_ascii "packet A {
-  match k as n {
-    [""a"", ""bb"", 007, ""d"", ""e"", 66, ""g"", ""h"", 9, ""j""] : B,
-    2 : C
-  },
-}")).
-Eval vm_compute in ("<<<M3709>>>" ++ check (runes_of_ascii "MetaData float {
-    float64 charz `
-    `,
-}// c
-
-root packet chars {
-    @rightPad('0')
-    Foo,
-}")).
-Eval vm_compute in ("<<<M1541>>>" ++ check (runes_of_ascii "packet
-//	t
-// trailing space 
-_x {
-// packet A { u8 x, }
-// c
-char[
-3
-    ] u8x @lengthOf(
-u8x )")).
-Eval vm_compute in ("<<<M172>>>" ++ check (runes_of_ascii "
-options
-    // " ++ [128512]%N ++ runes_of_ascii " emoji
-    {  roots= false ; f32a = ""// no comment""
-// " ++ [128512]%N ++ runes_of_ascii " emoji
-// a // b
-;
-}
-")).
-Eval vm_compute in ("<<<M4320>>>" ++ check (runes_of_ascii "  // c
-    packet
-o
-{
-repeat
-Logon
-
-uint8x, }
-options{ asx
-
-=zchar[
-3]	stringy
-
-='\x00' }
-")).
-Eval vm_compute in ("<<<M984>>>" ++ check (runes_of_ascii "options{ string_ = ""CRC32""	; charz =
-'\x00';
-i64_	=' ' i64_ =""a\""b""  ;
-uint8x= """"
-    ;}
-")).
-Eval vm_compute in ("<<<M3271>>>" ++ check (runes_of_ascii "MetaData float // c
-{ float64 charz `
-` , } root packet chars { @rightPad ( '0' ) Foo , }")).
-Eval vm_compute in ("<<<M3303>>>" ++ check (runes_of_ascii "MetaData float { float64 charz `
-` , } root packet chars { @rightPad ( '0' ) Foo , // c
-}")).
-Eval vm_compute in ("<<<M3514>>>" ++ check (runes_of_ascii "packet chars { } packet MetaDataX { @tag( 42 ) i16 string_ , repeat x
-// c
-`say ""hi""` , }")).
-Eval vm_compute in ("<<<M1050>>>" ++ check (runes_of_ascii "packet matchKey // @lengthOf(
-{ // packet A { u8 x, }
-@leftPad( '0' ) int16 options1,}
-")).
-Eval vm_compute in ("<<<M1195>>>" ++ check (runes_of_ascii "// " ++ [27880; 37322]%N ++ runes_of_ascii "
-MetaData msg_type{} MetaData Pad
-    { int64 Header
-,
-} MetaData matchKey { } //")).
-Eval vm_compute in ("<<<M3222>>>" ++ check (runes_of_ascii "packet metadata { Logon {
-// c
-A `" ++ [28040; 24687; 31867; 22411]%N ++ runes_of_ascii "` , tag o , } , zchar len `// not a comment` , }")).
-Eval vm_compute in ("<<<M2211>>>" ++ check (runes_of_ascii "string
-{ } options { BodyLength= u16 Header= f64 ; u128 =
-    true
-    ; } // a // b")).
-Eval vm_compute in ("<<<M3445>>>" ++ check (runes_of_ascii "packet o { repeat Logon uint8x , } options // c
-{ asx = zchar[ 3 ] stringy = '\x00' }")).
-Eval vm_compute in ("<<<M3835>>>" ++ check (runes_of_ascii "packet stringy {
-    @lengthOf(crc)
-    string repeatCount @calculatedFrom(""{,}""),
-}")).
-Eval vm_compute in ("<<<M2276>>>" ++ check (runes_of_ascii "options
-{ } options { BodyLength= u16 Header= f64 ; u128 =
-    
-    ; } // a // b")).
-Eval vm_compute in ("<<<M3420>>>" ++ check (runes_of_ascii "MetaData body { i64 pack `it's` , } packet stringy { int16 calculatedFrom , // c
-}")).
-Eval vm_compute in ("<<<M2907>>>" ++ check (runes_of_ascii "packet A {
-  match k as n {
-    [""a"", ""bb"", 007, ""d"", ""e""] : B,
-    2 : C
-  },
-}")).
-Eval vm_compute in ("<<<M2904>>>" ++ check (runes_of_ascii "packet A {
-  match k as n {
-    [""a"", 22, ""c c"", 4, ""e""] : B
-    2 : C
-  },
-}")).
-Eval vm_compute in ("<<<M2895>>>" ++ check (runes_of_ascii "packet A {
-  match k as n {
-    [""a"", ""bb"", 007, ""d""] : B
-    2 : C
-  },
-}")).
-Eval vm_compute in ("<<<M4177>>>" ++ check (runes_of_ascii "packet A {
-    match k as n {
-        [""a""] : B,
-        2 : C,
-    },
-}")).
-Eval vm_compute in ("<<<M2882>>>" ++ check (runes_of_ascii "packet A {
-  match k as n {
-    [""a"", ""bb"", 007] : B
-    2 : C
-  },
-}")).
-Eval vm_compute in ("<<<M2871>>>" ++ check (runes_of_ascii "packet A {
-  match k as n {
-    [1, 22, 007] : B,
-    2 : C
-  },
-}")).
-Eval vm_compute in ("<<<M596>>>" ++ check (runes_of_ascii "packet falsey { @tag(
-    1 ) repeat zchar[00
-    ] tag,
-    }
-")).
-Eval vm_compute in ("<<<M481>>>" ++ check (runes_of_ascii "MetaData x_y_z{ i8 //
-leftPad
-    , string
-body `" ++ [28040; 24687; 31867; 22411]%N ++ runes_of_ascii "` , }
-
-")).
-Eval vm_compute in ("<<<M3539>>>" ++ check (runes_of_ascii "root packet P {
-    hdr {
-        u8 a,
-    },
-    u8 x,
-}
-")).
-Eval vm_compute in ("<<<M3379>>>" ++ check (runes_of_ascii "packet x { @rightPad ( ) repeat roots // c
-Logon `doc` , }")).
-Eval vm_compute in ("<<<M805>>>" ++ check (runes_of_ascii "options { Packet =// @lengthOf(
-""\n"";// c
-}
-// " ++ [128512]%N ++ runes_of_ascii " emoji
-")).
-Eval vm_compute in ("<<<M3796>>>" ++ check (runes_of_ascii "  packet
-A {
-
-    u8 x
-    `d" ++ [5760]%N ++ runes_of_ascii "`
-    ,  // c" ++ [5760]%N ++ runes_of_ascii "
-		} ")).
-Eval vm_compute in ("<<<M1246>>>" ++ check (runes_of_ascii "options// trailing space 
-{ lengthOf =
-'0'
-;}
-")).
-Eval vm_compute in ("<<<M3839>>>" ++ check (runes_of_ascii "  packet A{
-
-    u8
-
-    x	`a
-b`
-    ,
-	}")).
-Eval vm_compute in ("<<<M4047>>>" ++ check (runes_of_ascii "options {
-    zchar = int32;
-    T = false
-}")).
-Eval vm_compute in ("<<<M2626>>>" ++ check (runes_of_ascii "packet A { @leftPad('0' '0') char[2] x, }")).
-Eval vm_compute in ("<<<M3201>>>" ++ check (runes_of_ascii "root packet u128 { chars `it's` , // c
-}")).
-Eval vm_compute in ("<<<M3725>>>" ++ check (runes_of_ascii "root packet u128 {
-    chars `it's`,
-}")).
-Eval vm_compute in ("<<<M3812>>>" ++ check (runes_of_ascii "packet trueish {
-    uint16 chars,
-}")).
-Eval vm_compute in ("<<<M2582>>>" ++ check (runes_of_ascii "packet A { char[3] @lengthOf(y), }")).
-Eval vm_compute in ("<<<M4593>>>" ++ check (runes_of_ascii "packet body {
-    // @lengthOf(
-}")).
-Eval vm_compute in ("<<<M2721>>>" ++ check (runes_of_ascii ";" ++ [65533; 1004; 28; 65533]%N ++ runes_of_ascii "K" ++ [26453]%N ++ runes_of_ascii ":qC" ++ [65533]%N ++ runes_of_ascii "mM" ++ [22; 65533; 65533]%N ++ runes_of_ascii "V" ++ [5; 65533; 17; 65533; 65533]%N ++ runes_of_ascii "	" ++ [65533; 65533; 65533; 65533]%N ++ runes_of_ascii "4" ++ [65533; 22; 65533]%N)).
-Eval vm_compute in ("<<<M3112>>>" ++ check (runes_of_ascii "packet A {
- u8 x `d" ++ [8287]%N ++ runes_of_ascii "`, // c" ++ [8287]%N ++ runes_of_ascii "
-}")).
-Eval vm_compute in ("<<<M2755>>>" ++ check (runes_of_ascii "6p~" ++ [65533]%N ++ runes_of_ascii "d" ++ [65533; 65533]%N ++ runes_of_ascii "!&" ++ [65533; 65533]%N ++ runes_of_ascii "R" ++ [65533]%N ++ runes_of_ascii "u" ++ [65533]%N ++ runes_of_ascii "JR+a" ++ [65533; 31]%N ++ runes_of_ascii "}" ++ [65533; 65533; 23; 0; 65533; 65533]%N)).
-Eval vm_compute in ("<<<M93>>>" ++ check (runes_of_ascii "packet repeatCount{	} // c")).
-Eval vm_compute in ("<<<M3252>>>" ++ check (runes_of_ascii "// c
-root packet pack { }")).
-Eval vm_compute in ("<<<M4567>>>" ++ check (runes_of_ascii "options {
+Eval vm_compute in ("<<<M1895>>>" ++ check (runes_of_ascii "root packet matchKey {
+    zchar[3] pack @calculatedFrom(""a	b"") `doc`,
 }
 
 options {
-}")).
-Eval vm_compute in ("<<<M703>>>" ++ check (runes_of_ascii "  root  packet As { }")).
-Eval vm_compute in ("<<<M3471>>>" ++ check (runes_of_ascii "
-// c
-MetaData o { }")).
-Eval vm_compute in ("<<<M3145>>>" ++ check (runes_of_ascii "packet A {
 }
-// c x")).
-Eval vm_compute in ("<<<M3086>>>" ++ check (runes_of_ascii "// c" ++ [8192]%N ++ runes_of_ascii "
-packet A {
+
+MetaData A {
+    // c
+    int8 msg_type,
 }")).
-Eval vm_compute in ("<<<M2568>>>" ++ check (runes_of_ascii "packet A { u8 , }")).
-Eval vm_compute in ("<<<M726>>>" ++ check (runes_of_ascii "packet u8x {  }
+Eval vm_compute in ("<<<M1226>>>" ++ check (runes_of_ascii "root packet
+// c
+matchKey { zchar[ 3 ] pack @calculatedFrom( ""a	b"" ) `doc` , } options { } MetaData A { int8 msg_type , }")).
+Eval vm_compute in ("<<<M1258>>>" ++ check (runes_of_ascii "root packet matchKey { zchar[ 3 ] pack @calculatedFrom( ""a	b"" ) `doc` , } options { } MetaData
+// c
+A { int8 msg_type , }")).
+Eval vm_compute in ("<<<M1788>>>" ++ check (runes_of_ascii "  packet
+
+    chars
+{	} 
+packet MetaDataX
+    {	@tag(
+42 )
+
+i16
+
+    string_ ,repeat
+x `say ""hi""` 
+// c
+	,
+} ")).
+Eval vm_compute in ("<<<M2069>>>" ++ check (runes_of_ascii "packet metadata	{Logon
+
+    { A `" ++ [28040; 24687; 31867; 22411]%N ++ runes_of_ascii "`
+,
+	tag
+o, }
+    , 
+zchar
+    len
+`// not a comment` 	 // c
+    ,	}
+
 ")).
-Eval vm_compute in ("<<<M2631>>>" ++ check (runes_of_ascii "packet A { } ;")).
-Eval vm_compute in ("<<<M4553>>>" ++ check (runes_of_ascii "packet x {
+Eval vm_compute in ("<<<M906>>>" ++ check (runes_of_ascii "packet A {
+  match k as n {
+    [""a"", 22, ""c c"", 4, ""e"", 66, ""g"", 8, ""i"", 10, ""k"", 12] : B
+    2 : C
+  },
 }")).
-Eval vm_compute in ("<<<M2784>>>" ++ check (runes_of_ascii "drJtYG.{8")).
-Eval vm_compute in ("<<<M2779>>>" ++ check (runes_of_ascii "3" ++ [65533; 3]%N ++ runes_of_ascii "4" ++ [65533]%N ++ runes_of_ascii "*M")).
-Eval vm_compute in ("<<<M2433>>>" ++ check (runes_of_ascii "char1")).
-Eval vm_compute in ("<<<M3139>>>" ++ check (runes_of_ascii "// c" ++ [6158]%N)).
-Eval vm_compute in ("<<<M179>>>" ++ check (runes_of_ascii "  
+Eval vm_compute in ("<<<M893>>>" ++ check (runes_of_ascii "packet A {
+  match k as n {
+    [""a"", 22, ""c c"", 4, ""e"", 66, ""g"", 8, ""i"", 10, ""k""] : B
+    2 : C
+  },
+}")).
+Eval vm_compute in ("<<<M879>>>" ++ check (runes_of_ascii "packet A {
+  match k as n {
+    [""a"", 22, ""c c"", 4, ""e"", 66, ""g"", 8, ""i"", 10] : B,
+    2 : C
+  },
+}")).
+Eval vm_compute in ("<<<M1939>>>" ++ check (runes_of_ascii "MetaData a1 {
+    Foo body `{ , }`,
+    int32 int ``,
+    i32 a1 `" ++ [28040; 24687; 31867; 22411]%N ++ runes_of_ascii "`,
+    int8 msg_type ``,
+}")).
+Eval vm_compute in ("<<<M865>>>" ++ check (runes_of_ascii "packet A {
+  match k as n {
+    [1, ""bb"", 007, ""d"", 5, ""f"", 7, ""h"", 9] : B
+    2 : C
+  },
+}")).
+Eval vm_compute in ("<<<M1185>>>" ++ check (runes_of_ascii "MetaData float {
+// c
+float64 charz `
+` , } root packet chars { @rightPad ( '0' ) Foo , }")).
+Eval vm_compute in ("<<<M1396>>>" ++ check (runes_of_ascii "packet // c
+chars { } packet MetaDataX { @tag( 42 ) i16 string_ , repeat x `say ""hi""` , }")).
+Eval vm_compute in ("<<<M1428>>>" ++ check (runes_of_ascii "packet chars { } packet MetaDataX { @tag( 42 ) i16 string_ , repeat x `say ""hi""` , // c
+}")).
+Eval vm_compute in ("<<<M1126>>>" ++ check (runes_of_ascii "packet metadata // c
+{ Logon { A `" ++ [28040; 24687; 31867; 22411]%N ++ runes_of_ascii "` , tag o , } , zchar len `// not a comment` , }")).
+Eval vm_compute in ("<<<M1339>>>" ++ check (runes_of_ascii "
+// c
+packet o { repeat Logon uint8x , } options { asx = zchar[ 3 ] stringy = '\x00' }")).
+Eval vm_compute in ("<<<M1363>>>" ++ check (runes_of_ascii "packet o { repeat Logon uint8x , } options { asx =
+// c
+zchar[ 3 ] stringy = '\x00' }")).
+Eval vm_compute in ("<<<M832>>>" ++ check (runes_of_ascii "packet A {
+  match k as n {
+    [""a"", ""bb"", 007, ""d"", ""e"", 66] : B
+    2 : C
+  },
+}")).
+Eval vm_compute in ("<<<M1324>>>" ++ check (runes_of_ascii "MetaData body { i64 pack `it's` , } packet stringy
+// c
+{ int16 calculatedFrom , }")).
+Eval vm_compute in ("<<<M829>>>" ++ check (runes_of_ascii "packet A {
+  match k as n {
+    [1, 22, ""c c"", 4, 5, ""f""] : B,
+    2 : C
+  },
+}")).
+Eval vm_compute in ("<<<M1934>>>" ++ check (runes_of_ascii "packet Inner {
+    u8 a,
+}
+
+root packet P {
+    Inner ref_obj,
+    u8 x,
+}")).
+Eval vm_compute in ("<<<M1646>>>" ++ check (runes_of_ascii "  // top
+
+MetaData 
+  // c0
+		o 
+	// c1
+		{
+// c2
+  } 
+	    // c3")).
+Eval vm_compute in ("<<<M2093>>>" ++ check (runes_of_ascii "root
+    packet
+
+    i8i8  {
+	@lengthOf(	Packet 
+) u32 
+u8x
+,}
 ")).
-Eval vm_compute in ("<<<M2781>>>" ++ check (runes_of_ascii "u32")).
-Eval vm_compute in ("<<<M2495>>>" ++ check (runes_of_ascii "@")).
+Eval vm_compute in ("<<<M123>>>" ++ check (runes_of_ascii "
+packet crc	{ u32 T@lengthOf( x ) `crlf
+line` ,// a // b
+}")).
+Eval vm_compute in ("<<<M1284>>>" ++ check (runes_of_ascii "packet x { @rightPad ( // c
+) repeat roots Logon `doc` , }")).
+Eval vm_compute in ("<<<M1088>>>" ++ check (runes_of_ascii "packet A { repeat // a
+ B // b
+ b // c
+ `d` // e
+ , }")).
+Eval vm_compute in ("<<<M940>>>" ++ check (runes_of_ascii "MetaData M {
+    u8 x `a
+
+b`,
+    T t `a
+
+b`,
+}")).
+Eval vm_compute in ("<<<M1885>>>" ++ check (runes_of_ascii "// c
+root packet u128 {
+    chars `it's`,
+}")).
+Eval vm_compute in ("<<<M1112>>>" ++ check (runes_of_ascii "root packet u128 { chars `it's` , // c
+}")).
+Eval vm_compute in ("<<<M71>>>" ++ check (runes_of_ascii "// " ++ [27880; 37322]%N ++ runes_of_ascii "
+packet  matchKey{
+    }
+// c
+")).
+Eval vm_compute in ("<<<M750>>>" ++ check (runes_of_ascii "int8 match uint64 } options u32")).
+Eval vm_compute in ("<<<M936>>>" ++ check (runes_of_ascii "packet A {
+    u8 x `a
+
+b`,
+}")).
+Eval vm_compute in ("<<<M1166>>>" ++ check (runes_of_ascii "root
+// c
+packet pack { }")).
+Eval vm_compute in ("<<<M268>>>" ++ check (runes_of_ascii "  packet
+chars	{ }
+")).
+Eval vm_compute in ("<<<M1006>>>" ++ check (runes_of_ascii "packet A {
+}
+// c" ++ [8232]%N)).
+Eval vm_compute in ("<<<M999>>>" ++ check (runes_of_ascii "packet A {
+}// c" ++ [8202]%N)).
+Eval vm_compute in ("<<<M492>>>" ++ check (runes_of_ascii "root packet")).
+Eval vm_compute in ("<<<M1005>>>" ++ check (runes_of_ascii "// c" ++ [8232]%N)).
